@@ -87,6 +87,8 @@ def ast_atoms(t, positive=True):
     parts; a conjunction taken false establishes nothing about its parts (it stays one opaque fact)."""
     if isinstance(t, ast.UnaryOp) and isinstance(t.op, ast.Not):
         return ast_atoms(t.operand, not positive)
+    if isinstance(t, ast.NamedExpr):
+        return ast_atoms(t.value, positive)   # `(x := E)` is tested for what E is
     if isinstance(t, ast.BoolOp):
         if (isinstance(t.op, ast.And) and positive) or (isinstance(t.op, ast.Or) and not positive):
             out = []
@@ -100,6 +102,8 @@ def ast_atoms(t, positive=True):
             l, r = r, l
         if A.is_none(r):
             is_ = isinstance(t.ops[0], (ast.Is, ast.Eq))
+            if isinstance(l, ast.NamedExpr):
+                l = l.value
             return [("none", l, positive if is_ else not positive)]
     return [("truth", t, positive)]
 
@@ -142,6 +146,293 @@ def is_calling_frame(fa):
     def f(e, n):
         return fa.xnorm(e, n) == FRAME
     return f
+
+
+def single_item(e):
+    """x for a one-element list / tuple display [x] / (x,)."""
+    if isinstance(e, (ast.List, ast.Tuple)) and len(e.elts) == 1 and not isinstance(e.elts[0], ast.Starred):
+        return e.elts[0]
+    return None
+
+
+def rebinds_local(fa, st):
+    """Was the augmented assignment `st` (on a plain local) written `x = x <op> e` in the source?  The canonical form
+    turns that spelling into `x <op>= e`, but for a list / set the two differ: `x |= e` grows the object `x` names —
+    the caller's own set, when `x` is an alias of it — while `x = x | e` builds a new object and only rebinds the
+    local.  Decided on the syntax tree of the module as written (same position, an Assign there)."""
+    if not (isinstance(st, ast.AugAssign) and isinstance(st.target, ast.Name) and hasattr(st, "lineno")):
+        return False
+    mod = fa.fi.module
+    idx = mod.__dict__.get("_raw_assign_index")
+    if idx is None:
+        idx = {}
+        try:
+            for n in ast.walk(ast.parse(mod.source)):
+                if isinstance(n, (ast.Assign, ast.AugAssign)):
+                    idx.setdefault((n.lineno, n.col_offset), n)
+        except SyntaxError:
+            pass
+        mod.__dict__["_raw_assign_index"] = idx
+    raw = idx.get((st.lineno, st.col_offset))
+    return isinstance(raw, ast.Assign) and len(raw.targets) == 1 and isinstance(raw.targets[0], ast.Name) and raw.targets[0].id == st.target.id
+
+
+def unwrap_copy(e):
+    """X for a plain copy of a collection: list(X), set(X), tuple(X), frozenset(X), sorted(X), X.copy()."""
+    while True:
+        if isinstance(e, ast.Call) and isinstance(e.func, ast.Name) and e.func.id in ("list", "set", "tuple", "frozenset", "sorted") and len(e.args) == 1 \
+                and not e.keywords and not isinstance(e.args[0], ast.Starred):
+            e = e.args[0]
+        elif isinstance(e, ast.Call) and isinstance(e.func, ast.Attribute) and e.func.attr == "copy" and not e.args and not e.keywords:
+            e = e.func.value
+        else:
+            return e
+
+
+def choose(fa, e, at, atom, _depth=0):
+    """(expression, node) that `e` denotes at `at` when the atomic tests have the values `atom` gives them: locals bound
+    once are followed, a conditional expression is resolved to the arm its test selects."""
+    while _depth < 12:
+        _depth += 1
+        if isinstance(e, ast.IfExp):
+            v = eval3(fa, e.test, at, atom)
+            if v is None:
+                return e, at
+            e = e.body if v else e.orelse
+            continue
+        if isinstance(e, ast.Name):
+            e2, at2 = bound_value(fa, e, at, depth=1)
+            if e2 is e:
+                return e, at
+            e, at = e2, at2
+            continue
+        break
+    return e, at
+
+
+def presence_atom(is_it, val):
+    """Atom: tests of the object `is_it(expr, node)` recognises — truthiness, `is None`, `is not None` — say it is
+    present (val=True) / absent (val=False)."""
+    def f(t, n):
+        nt = none_test(t)
+        x, v = (nt[0], (not nt[1]) == val) if nt is not None else (t, val)
+        if isinstance(x, ast.NamedExpr):
+            x = x.value
+        try:
+            if isinstance(x, (ast.Name, ast.Attribute, ast.Call)) and is_it(x, n):
+                return v
+        except AnalysisError:
+            pass
+        return None
+    return f
+
+
+class Push:
+    """One place that puts exactly one more element at the end of a list: `r.append(x)`, `r += [x]`, `r.extend([x])`,
+    `r.insert(len(r), x)`.  node = the call / the augmented assignment (what obligations are keyed on and where the
+    CFG evaluates it), recv = the list expression, elem = the element expression."""
+    __slots__ = ("node", "recv", "elem")
+
+    def __init__(self, node, recv, elem):
+        self.node, self.recv, self.elem = node, recv, elem
+
+
+def pushes(fa, name=None):
+    """Every Push of the function (on the local list `name`, when given)."""
+    out = []
+    for c in fa.calls():
+        f = c.func
+        if not isinstance(f, ast.Attribute) or c.keywords or any(isinstance(a, ast.Starred) for a in c.args):
+            continue
+        if f.attr == "append" and len(c.args) == 1:
+            out.append(Push(c, f.value, c.args[0]))
+        elif f.attr == "extend" and len(c.args) == 1 and single_item(c.args[0]) is not None:
+            out.append(Push(c, f.value, single_item(c.args[0])))
+        elif f.attr == "insert" and len(c.args) == 2 and isinstance(c.args[0], ast.Call) and isinstance(c.args[0].func, ast.Name) \
+                and c.args[0].func.id == "len" and len(c.args[0].args) == 1 and A.norm(c.args[0].args[0]) == A.norm(f.value):
+            out.append(Push(c, f.value, c.args[1]))
+    for st in fa.stmts(ast.AugAssign):
+        if isinstance(st.op, ast.Add) and single_item(st.value) is not None and not rebinds_local(fa, st):
+            out.append(Push(st, st.target, single_item(st.value)))
+    if name is not None:
+        out = [p for p in out if A.dotted(p.recv) == name]
+    return [p for p in out if fa.nodes(p.node)]
+
+
+def other_edits(fa, name):
+    """Statements that change the local list `name` otherwise than by one Push: other method calls that edit a list,
+    `name += <several>`, stores into / deletions of its slots."""
+    own = {id(p.node) for p in pushes(fa, name)}
+    out = [c for c in fa.calls() if A.dotted(A.call_recv(c)) == name and id(c) not in own and A.call_attr(c) in MUTATORS + ("append",)]
+    for st in fa.stmts((ast.Assign, ast.AugAssign, ast.Delete)):
+        if isinstance(st, ast.AugAssign) and A.dotted(st.target) == name and id(st) not in own:
+            out.append(st)
+        for t in (st.targets if isinstance(st, (ast.Assign, ast.Delete)) else [st.target]):
+            if isinstance(t, ast.Subscript) and A.dotted(t.value) == name:
+                out.append(st)
+    return out
+
+
+class Sense:
+    """Reachability that keeps track of what is known about a few locals along the way — None / not None / truthy /
+    falsy-but-not-None — so that two tests of the same local (or of a local and the one it was copied from) are not
+    taken against each other:  `rec = None ... if hit: rec = stored ... if rec is None: continue`.
+    The locals tracked are those some branch test reads directly; anything else about the path is ignored, so what is
+    reachable here is a superset of what can really happen and a subset of plain CFG reachability."""
+
+    N, Z, T, NN, U = "none", "falsy", "truthy", "notnone", "unknown"
+
+    def __init__(self, fa, limit=8):
+        self.fa = fa
+        names = set()
+        for nd in fa.cfg.nodes:
+            if nd.kind == "test" and nd.ast is not None:
+                for pos in (True, False):
+                    for (_k, e, _b) in ast_atoms(nd.ast, pos):
+                        if isinstance(e, ast.Name):
+                            names.add(e.id)
+        # only locals whose bindings say something: at least one binding to a constant / another tracked local
+        self.names = sorted(names)[:limit] if len(names) <= limit else []
+        self.index = {n: i for i, n in enumerate(self.names)}
+
+    # ---- abstract values ------------------------------------------------------------------------------------
+    def value_of(self, e, env):
+        if isinstance(e, ast.Constant):
+            return self.N if e.value is None else (self.T if e.value else self.Z)
+        if isinstance(e, ast.Name) and e.id in self.index:
+            return env[self.index[e.id]]
+        if isinstance(e, ast.NamedExpr):
+            return self.value_of(e.value, env)
+        if isinstance(e, (ast.List, ast.Tuple, ast.Set, ast.Dict)):
+            n = len(e.keys) if isinstance(e, ast.Dict) else len(e.elts)
+            return self.T if n else self.Z
+        if isinstance(e, ast.Call) and isinstance(e.func, ast.Name) and e.func.id[:1].isupper():
+            return self.NN      # an instance
+        if isinstance(e, (ast.Compare, ast.JoinedStr, ast.Lambda, ast.ListComp, ast.SetComp, ast.DictComp, ast.GeneratorExp)):
+            return self.NN
+        if isinstance(e, ast.IfExp):
+            a, b = self.value_of(e.body, env), self.value_of(e.orelse, env)
+            if a == b:
+                return a
+            return self.NN if {a, b} <= {self.T, self.Z, self.NN} else self.U
+        return self.U
+
+    def truth(self, e, env):
+        """Three-valued truth of a test under `env`."""
+        def atom(t, _n):
+            nt = none_test(t)
+            if nt is not None:
+                v = self.value_of(nt[0], env) if isinstance(nt[0], (ast.Name, ast.NamedExpr)) else self.U
+                if v == self.N:
+                    return nt[1]
+                if v in (self.Z, self.T, self.NN):
+                    return not nt[1]
+                return None
+            if isinstance(t, (ast.Name, ast.NamedExpr)):
+                v = self.value_of(t, env)
+                return True if v == self.T else (False if v in (self.N, self.Z) else None)
+            return None
+        return _eval3_plain(e, atom)
+
+    def refine(self, test, positive, env):
+        env = list(env)
+        for (k, e, b) in ast_atoms(test, positive):
+            if not (isinstance(e, ast.Name) and e.id in self.index):
+                continue
+            i = self.index[e.id]
+            v = env[i]
+            if k == "none":
+                env[i] = self.N if b else (self.NN if v == self.U else v)
+            elif b:
+                env[i] = self.T
+            else:
+                env[i] = self.Z if v == self.NN else v
+        return tuple(env)
+
+    def after(self, n, env):
+        """Environment after node `n` ran."""
+        ds = [d for d in self.fa.df.gen.get(n, []) if d.name in self.index]
+        if not ds:
+            return env
+        new = list(env)
+        for d in ds:
+            new[self.index[d.name]] = self.value_of(d.value, env) if d.kind == "assign" and d.value is not None else self.U
+        return tuple(new)
+
+    # ---- exploration -----------------------------------------------------------------------------------------
+    def reach(self, starts, removed=(), edge_ok=None, include_start=True):
+        cfg = self.fa.cfg
+        if not self.names:
+            return cfg.reach(starts, removed=removed, edge_ok=edge_ok, include_start=include_start)
+        removed = set(removed)
+        top = tuple(self.U for _ in self.names)
+        seen = set()
+        stack = []
+
+        def step(n, env):
+            nd = cfg.node(n)
+            is_test = nd.kind == "test" and nd.ast is not None
+            # bindings made by the test itself (walrus) happen before the branch is taken
+            out_env = self.after(n, env)
+            for (d, l) in cfg.succ[n]:
+                if d in removed or (edge_ok is not None and not edge_ok(n, d, l)):
+                    continue
+                e2 = out_env
+                if is_test and l in ("T", "F"):
+                    v = self.truth(nd.ast, out_env)
+                    if v is not None and v != (l == "T"):
+                        continue
+                    e2 = self.refine(nd.ast, l == "T", out_env)
+                if (d, e2) not in seen:
+                    stack.append((d, e2))
+        for s_ in starts:
+            if include_start:
+                if s_ not in removed:
+                    stack.append((s_, top))
+            else:
+                step(s_, top)
+        while stack:
+            st = stack.pop()
+            if st in seen:
+                continue
+            seen.add(st)
+            step(*st)
+        return {n for (n, _e) in seen}
+
+
+def _eval3_plain(t, atom):
+    v = atom(t, None)
+    if v is not None:
+        return v
+    if isinstance(t, ast.UnaryOp) and isinstance(t.op, ast.Not):
+        x = _eval3_plain(t.operand, atom)
+        return None if x is None else not x
+    if isinstance(t, ast.BoolOp):
+        vs = [_eval3_plain(x, atom) for x in t.values]
+        dom = isinstance(t.op, ast.Or)
+        if any(x is dom for x in vs):
+            return dom
+        return (not dom) if all(x is (not dom) for x in vs) else None
+    return None
+
+
+def sense(fa):
+    """The function's Sense (one per FA)."""
+    s_ = fa.__dict__.get("_sense")
+    if s_ is None:
+        s_ = fa.__dict__["_sense"] = Sense(fa)
+    return s_
+
+
+def none_test(t):
+    """(X, b) for a comparison that says "(X is None) == b", else None."""
+    if isinstance(t, ast.Compare) and len(t.ops) == 1 and isinstance(t.ops[0], (ast.Is, ast.IsNot, ast.Eq, ast.NotEq)):
+        l, r = t.left, t.comparators[0]
+        if A.is_none(l):
+            l, r = r, l
+        if A.is_none(r):
+            return l, isinstance(t.ops[0], (ast.Is, ast.Eq))
+    return None
 
 
 def all_defs(fa, name):
@@ -224,6 +515,9 @@ class Seqs:
                     roles.append(None)
             return self._merge(roles)
         if isinstance(e, ast.IfExp):
+            taken = eval3(fa, e.test, at, self.assume) if getattr(self, "assume", None) is not None else None
+            if taken is not None:
+                return self.role(e.body if taken else e.orelse, at, _seen)
             return self._merge([self.role(e.body, at, _seen), self.role(e.orelse, at, _seen)])
         if isinstance(e, ast.BinOp) and isinstance(e.op, ast.Mult):
             for (l, r) in ((e.left, e.right), (e.right, e.left)):
@@ -235,6 +529,8 @@ class Seqs:
             p = pos_iter(self, e.generators[0].target, e.generators[0].iter, at)
             if p is None:
                 return None
+            if isinstance(e.elt, ast.Constant):
+                return "blank"      # [None for _ in xs] is [None] * len(xs)
             return (self.call_role(self, e, at) if self.call_role else None) or "aligned"
         if isinstance(e, ast.Call) and self.call_role:
             return self.call_role(self, e, at)
@@ -266,13 +562,46 @@ class PosIter:
                 return None
             ds = fa.df.reaching(at, e.id)
             if ds and _depth < 8 and all(d.kind == "assign" and d.value is not None for d in ds):
-                rs = {self.elem_role(seqs, d.value, d.node, _depth + 1) for d in ds}
+                # "nothing for this element" (None) next to the element itself: where the value is used as an element
+                # it is the element
+                some = [d for d in ds if not A.is_none(d.value)] or ds
+                rs = {self.elem_role(seqs, d.value, d.node, _depth + 1) for d in some}
                 return rs.pop() if len(rs) == 1 else None
             return None
         if isinstance(e, ast.Subscript) and isinstance(e.slice, ast.Name) and self.pos is not None and e.slice.id == self.pos \
                 and self._bound_here(fa, self.pos, at):
             return seqs.role(e.value, at)
+        if isinstance(e, ast.Call) and isinstance(e.func, ast.Name) and e.func.id == "next" and len(e.args) == 1 and not e.keywords \
+                and self.loop_ast is not None:
+            return self._in_step(seqs, e, at)
         return None
+
+    def _in_step(self, seqs, call, at):
+        """`next(it)` for an iterator made once, before the loop, from an aligned sequence and advanced exactly once in
+        every iteration of this loop (and nowhere else): the element of that sequence at the current position."""
+        fa = seqs.fa
+        lv = origins(fa, call.args[0], at)
+        if len(lv) != 1:
+            return None
+        mk, mk_at = lv[0]
+        if not (isinstance(mk, ast.Call) and isinstance(mk.func, ast.Name) and mk.func.id == "iter" and len(mk.args) == 1 and not mk.keywords):
+            return None
+        if fa.inside(mk, self.loop_ast) or fa.enclosing(mk, (ast.For, ast.While)) is not None or fa.enclosing(self.loop_ast, (ast.For, ast.While)) is not None:
+            return None
+        role = seqs.role(mk.args[0], mk_at)
+        if role is None:
+            return None
+        # every use of the iterator object is such a next() ...
+        names = {d.name for ds in fa.df.gen.values() for d in ds if d.kind == "assign" and d.value is mk}
+        uses = [n for n in A.walk_body(fa.node) if isinstance(n, ast.Name) and isinstance(n.ctx, ast.Load) and n.id in names]
+        nexts = [c for c in fa.calls("next") if isinstance(c.func, ast.Name) and len(c.args) == 1 and isinstance(c.args[0], ast.Name) and c.args[0].id in names]
+        if len(uses) != len(nexts) or any(len(all_defs(fa, nm)) != 1 for nm in names) or not all(fa.inside(c, self.loop_ast) and fa.nodes(c) for c in nexts):
+            return None
+        # ... executed exactly once per iteration
+        skip, twice = iteration_counts(fa, heads_of(fa, self.loop_ast), fa.nodes_all(nexts))
+        if skip or twice or not all(fa.unconditional(c) for c in nexts):
+            return None
+        return role
 
 
 def bound_value(fa, e, at, depth=8):
@@ -291,6 +620,22 @@ def pos_iter(seqs, target, it, at, loop_ast=None):
     input position, in input order"."""
     it = seqs.unwrap(it, ("tqdm",))
     p = PosIter(loop_ast)
+    if isinstance(it, ast.Name) and isinstance(target, ast.Name):
+        # `positions = range(len(xs))` ... (`positions = tqdm(positions)`) ... `for i in positions`
+        def ranged(e, n, seen):
+            e = seqs.unwrap(e, ("tqdm",))
+            if isinstance(e, ast.Name):
+                ds = seqs.fa.df.reaching(n, e.id)
+                fresh = [d for d in ds if (d.node, d.name) not in seen]
+                return bool(ds) and all(d.kind == "assign" and d.value is not None for d in ds) and \
+                    all(ranged(d.value, d.node, seen | {(d.node, d.name)}) for d in fresh) and (bool(fresh) or bool(seen))
+            if isinstance(e, ast.Call) and A.call_attr(e) == "range" and isinstance(e.func, ast.Name):
+                q = pos_iter(seqs, ast.Name(id="_", ctx=ast.Store()), e, n)
+                return q is not None and q.pos == "_"
+            return False
+        if ranged(it, at, frozenset()):
+            p.pos = target.id
+            return p
     if isinstance(it, ast.Call) and A.call_attr(it) == "range" and isinstance(it.func, ast.Name) and not it.keywords:
         a = it.args
         if len(a) == 2 and isinstance(a[0], ast.Constant) and a[0].value == 0:
@@ -361,35 +706,15 @@ def iteration_counts(fa, heads, nodes):
     cfg = fa.cfg
     H = set(heads)
     nodes = set(nodes)
-    seen = set()
-    stack = body_starts(fa, heads)
-    skip = False
-    while stack:
-        n = stack.pop()
-        if n in seen:
-            continue
-        seen.add(n)
-        if n in H:
-            skip = True
-            break
-        for (d, l) in cfg.succ[n]:
-            if n in nodes and l != "exc":
-                continue
-            stack.append(d)
-    twice = None
+    sn = sense(fa)
+    # a node of `nodes` counts as executed when it is left normally (an exception out of it goes on looking)
+    skip = bool(H & sn.reach(body_starts(fa, heads), edge_ok=lambda s_, d, l: not (s_ in nodes and l != "exc")))
+    twice = False
     for a in nodes:
-        seen = set()
-        stack = [d for (d, l) in cfg.succ[a] if l != "exc"]
-        while stack:
-            n = stack.pop()
-            if n in seen or n in H:
-                continue
-            seen.add(n)
-            if n in nodes:
-                twice = n
-                break
-            stack.extend(d for (d, l) in cfg.succ[n])
-    return skip, twice is not None
+        nxt = [d for (d, l) in cfg.succ[a] if l != "exc" and d not in H]
+        if nodes & sn.reach(nxt, removed=H):
+            twice = True
+    return skip, twice
 
 
 def exactly_on(fa, heads, nodes, on_edges, off_edges):
@@ -397,10 +722,10 @@ def exactly_on(fa, heads, nodes, on_edges, off_edges):
     iteration either took an edge of `off_edges` or executed one of `nodes`."""
     H = set(heads)
     st = body_starts(fa, heads)
-    r1 = fa.cfg.reach(st, removed=H, edge_ok=not_edges(on_edges))
+    r1 = sense(fa).reach(st, removed=H, edge_ok=not_edges(on_edges))
     if set(nodes) & r1:
         return False
-    r2 = fa.cfg.reach(st, removed=set(nodes), edge_ok=not_edges(off_edges))
+    r2 = sense(fa).reach(st, removed=set(nodes), edge_ok=not_edges(off_edges))
     return not (H & r2)
 
 
@@ -422,33 +747,490 @@ def per_element(seqs, expr, at, _depth=0):
         return None
     d = ds[0]
     v = d.value
+    name = e.id
+    if seqs.role(v, d.node) == "blank" and isinstance(seqs.unwrap(v, ("list",)), ast.BinOp):
+        # `xs = [None] * len(aligned)` ... `xs[i] = E` once in every iteration of a loop over the positions
+        if len(all_defs(fa, name)) != 1 or name in fa.df.params or pushes(fa, name):
+            return None
+        edits = other_edits(fa, name)
+        fills = [st for st in edits if isinstance(st, ast.Assign) and len(st.targets) == 1 and isinstance(st.targets[0], ast.Subscript)
+                 and A.dotted(st.targets[0].value) == name and fa.nodes(st)]
+        loops = position_loops(fa, seqs)
+        homes = [enclosing_position(fa, loops, st) for st in fills]
+        if not fills or len(fills) != len(edits) or any(h is None or h[0] is not homes[0][0] for h in homes):
+            return None
+        loop, p = homes[0]
+        use_stmt = fa.cfg.node(at).ast
+        if fa.enclosing(loop, (ast.For, ast.While)) is not None or (use_stmt is not None and fa.inside(use_stmt, loop)):
+            return None
+        if not all(isinstance(st.targets[0].slice, ast.Name) and p.pos == st.targets[0].slice.id and p._bound_here(fa, p.pos, fa.nodes(st)[0]) for st in fills):
+            return None
+        skip, twice = iteration_counts(fa, heads_of(fa, loop), fa.nodes_all(fills))
+        if skip or twice:
+            return None
+        return [(st.value, fa.nodes(st)[0], p) for st in fills]
     if not (isinstance(v, ast.List) and not v.elts):
         return per_element(seqs, v, d.node, _depth + 1)
-    name = e.id
     if len(all_defs(fa, name)) != 1 or name in fa.df.params:
         return None
-    touched = [c for c in fa.calls() if A.dotted(A.call_recv(c)) == name]
-    if any(A.call_attr(c) != "append" for c in touched):
+    if other_edits(fa, name):
         return None
-    if any(isinstance(s, (ast.Assign, ast.AugAssign, ast.Delete)) and any(
-            isinstance(t, ast.Subscript) and A.dotted(t.value) == name for t in (s.targets if isinstance(s, (ast.Assign, ast.Delete)) else [s.target]))
-            for s in fa.stmts((ast.Assign, ast.AugAssign, ast.Delete))):
-        return None
-    apps = [c for c in touched if len(c.args) == 1 and fa.nodes(c)]
+    apps = pushes(fa, name)
     loops = position_loops(fa, seqs)
-    homes = {id(enclosing_position(fa, loops, c)[0]) if enclosing_position(fa, loops, c) else None for c in apps}
+    homes = {id(enclosing_position(fa, loops, c.node)[0]) if enclosing_position(fa, loops, c.node) else None for c in apps}
     if not apps or len(homes) != 1 or None in homes:
         return None
-    loop, p = enclosing_position(fa, loops, apps[0])
+    loop, p = enclosing_position(fa, loops, apps[0].node)
     if fa.enclosing(loop, (ast.For, ast.While)) is not None:
         return None
     use_stmt = fa.cfg.node(at).ast
     if use_stmt is not None and fa.inside(use_stmt, loop):
         return None
-    skip, twice = iteration_counts(fa, heads_of(fa, loop), fa.nodes_all(apps))
+    skip, twice = iteration_counts(fa, heads_of(fa, loop), fa.nodes_all(c.node for c in apps))
     if skip or twice:
         return None
-    return [(c.args[0], fa.nodes(c)[0], p) for c in apps]
+    return [(c.elem, fa.nodes(c.node)[0], p) for c in apps]
+
+
+# =================================================================================================
+# local normal forms: constructs the rules do not read are written as the plain statements they stand for
+# =================================================================================================
+
+_FUNCS = (ast.FunctionDef, ast.AsyncFunctionDef)
+
+
+def _own_nodes(node):
+    """Nodes below `node`, not entering nested function / class bodies (lambdas are entered)."""
+    stack = list(ast.iter_child_nodes(node))
+    while stack:
+        n = stack.pop()
+        yield n
+        if not isinstance(n, _FUNCS + (ast.ClassDef,)):
+            stack.extend(ast.iter_child_nodes(n))
+
+
+def _blocks_of(node):
+    """Every statement list of the function (its own, not those of nested defs)."""
+    out = []
+    for n in [node] + list(_own_nodes(node)):
+        if n is not node and isinstance(n, _FUNCS + (ast.ClassDef,)):
+            continue
+        for fld in ("body", "orelse", "finalbody"):
+            b = getattr(n, fld, None)
+            if isinstance(b, list) and b and isinstance(b[0], ast.stmt):
+                out.append(b)
+        for h in getattr(n, "handlers", []) or []:
+            out.append(h.body)
+    return out
+
+
+def _pure_arg(e):
+    return isinstance(e, (ast.Name, ast.Constant)) or (isinstance(e, ast.Attribute) and _pure_arg(e.value))
+
+
+def _apply_lambda(lam, call):
+    """The body of `lam` with its parameters replaced by the arguments of `call`, or None when that is not a plain
+    substitution (defaults, *args, arguments with effects used more than once ...)."""
+    a = lam.args
+    if a.vararg or a.kwarg or a.kwonlyargs or a.defaults or a.posonlyargs or call.keywords or len(a.args) != len(call.args) \
+            or any(isinstance(x, ast.Starred) for x in call.args):
+        return None
+    params = [x.arg for x in a.args]
+    uses = {p_: sum(1 for n in ast.walk(lam.body) if isinstance(n, ast.Name) and n.id == p_) for p_ in params}
+    if any(not _pure_arg(v) and uses[p_] > 1 for p_, v in zip(params, call.args)):
+        return None
+    if any(isinstance(n, (ast.Lambda, ast.ListComp, ast.SetComp, ast.DictComp, ast.GeneratorExp, ast.NamedExpr)) for n in ast.walk(lam.body)):
+        return None     # inner scopes could capture / shadow a parameter name
+
+    class T(ast.NodeTransformer):
+        def visit_Name(self, n):
+            if n.id in params and isinstance(n.ctx, ast.Load):
+                return ast.copy_location(copy.deepcopy(call.args[params.index(n.id)]), n)
+            return n
+    return T().visit(copy.deepcopy(lam.body))
+
+
+def _stores(node):
+    out = {}
+    for n in _own_nodes(node):
+        if isinstance(n, ast.Name) and isinstance(n.ctx, (ast.Store, ast.Del)):
+            out[n.id] = out.get(n.id, 0) + 1
+    for n in ast.walk(node):
+        if isinstance(n, (ast.Nonlocal, ast.Global)):
+            for nm in n.names:
+                out[nm] = out.get(nm, 0) + 2
+    for a_ in node.args.posonlyargs + node.args.args + node.args.kwonlyargs + [x for x in (node.args.vararg, node.args.kwarg) if x is not None]:
+        out[a_.arg] = out.get(a_.arg, 0) + 1
+    return out
+
+
+def _replace_expr(root, old, new):
+    for n in ast.walk(root):
+        for fld, val in ast.iter_fields(n):
+            if val is old:
+                setattr(n, fld, new)
+                return True
+            if isinstance(val, list):
+                for i, x in enumerate(val):
+                    if x is old:
+                        val[i] = new
+                        return True
+    return False
+
+
+def _nf_maps(node):
+    """`map(f, xs)` is `(f(x) for x in xs)`; `list(map(f, xs))` is `[f(x) for x in xs]`."""
+    n_ = [0]
+    changed = False
+    for c in [c for c in _own_nodes(node) if isinstance(c, ast.Call)]:
+        inner = c
+        as_list = False
+        if isinstance(c.func, ast.Name) and c.func.id in ("list", "tuple") and len(c.args) == 1 and not c.keywords and isinstance(c.args[0], ast.Call):
+            inner, as_list = c.args[0], c.func.id == "list"
+        if not (isinstance(inner.func, ast.Name) and inner.func.id == "map" and len(inner.args) == 2 and not inner.keywords
+                and isinstance(inner.args[0], (ast.Name, ast.Attribute, ast.Lambda)) and not isinstance(inner.args[1], ast.Starred)):
+            continue
+        if inner is c and any(isinstance(p_, ast.Call) and isinstance(p_.func, ast.Name) and p_.func.id in ("list", "tuple") and p_.args and p_.args[0] is c
+                              for p_ in _own_nodes(node)):
+            continue    # handled together with its list(...) wrapper
+        n_[0] += 1
+        v = "item__m%d" % n_[0]
+        elt = ast.Call(func=inner.args[0], args=[ast.Name(id=v, ctx=ast.Load())], keywords=[])
+        gens = [ast.comprehension(target=ast.Name(id=v, ctx=ast.Store()), iter=inner.args[1], ifs=[], is_async=0)]
+        comp = ast.ListComp(elt=elt, generators=gens) if as_list else ast.GeneratorExp(elt=elt, generators=gens)
+        ast.copy_location(comp, c)
+        ast.copy_location(elt, c)
+        target = c if as_list else inner
+        if _replace_expr(node, target, comp):
+            changed = True
+    return changed
+
+
+def _nf_lambdas(node):
+    """A lambda that is called on the spot, or bound once to a local that is only ever called, is its body with the
+    arguments in place of the parameters."""
+    changed = True
+    any_change = False
+    while changed:
+        changed = False
+        st = _stores(node)
+        # name = lambda ...   (bound once, every mention is the callee of a call)
+        for blk in _blocks_of(node):
+            for s_ in list(blk):
+                if isinstance(s_, ast.Assign) and len(s_.targets) == 1 and isinstance(s_.targets[0], ast.Name) and isinstance(s_.value, ast.Lambda) \
+                        and st.get(s_.targets[0].id, 0) == 1:
+                    nm = s_.targets[0].id
+                    mentions = [n for n in ast.walk(node) if isinstance(n, ast.Name) and n.id == nm and n is not s_.targets[0]]
+                    calls = [c for c in ast.walk(node) if isinstance(c, ast.Call) and isinstance(c.func, ast.Name) and c.func.id == nm]
+                    if not mentions or len(mentions) != len(calls):
+                        continue
+                    bodies = [(c, _apply_lambda(s_.value, c)) for c in calls]
+                    if any(b is None for (_c, b) in bodies):
+                        continue
+                    for (c, b) in bodies:
+                        _replace_expr(node, c, b)
+                    blk.remove(s_)
+                    if not blk:
+                        blk.append(ast.copy_location(ast.Pass(), s_))
+                    changed = any_change = True
+                    break
+            if changed:
+                break
+        if changed:
+            continue
+        # name = (lambda ...) if C else (lambda ...): each call statement becomes the if statement it stands for
+        for blk in _blocks_of(node):
+            for s_ in list(blk):
+                if not (isinstance(s_, ast.Assign) and len(s_.targets) == 1 and isinstance(s_.targets[0], ast.Name) and isinstance(s_.value, ast.IfExp)
+                        and isinstance(s_.value.body, ast.Lambda) and isinstance(s_.value.orelse, ast.Lambda) and st.get(s_.targets[0].id, 0) == 1):
+                    continue
+                nm = s_.targets[0].id
+                mentions = [n for n in ast.walk(node) if isinstance(n, ast.Name) and n.id == nm and n is not s_.targets[0]]
+                calls = [c for c in ast.walk(node) if isinstance(c, ast.Call) and isinstance(c.func, ast.Name) and c.func.id == nm]
+                homes = [next(((bl, x) for bl in _blocks_of(node) for x in bl if _simple_holder(x) and x.value is c), None) for c in calls]
+                if not mentions or len(mentions) != len(calls) or any(h is None for h in homes):
+                    continue
+                arms = [(_apply_lambda(s_.value.body, c), _apply_lambda(s_.value.orelse, c)) for c in calls]
+                if any(a is None or b is None for (a, b) in arms):
+                    continue
+                cond = s_.value.test
+                if isinstance(cond, ast.Name) and st.get(cond.id, 0) <= 1:
+                    blk.remove(s_)
+                    if not blk:
+                        blk.append(ast.copy_location(ast.Pass(), s_))
+                else:
+                    tmp = "chosen__%s" % nm
+                    blk[blk.index(s_)] = ast.copy_location(ast.Assign(targets=[ast.Name(id=tmp, ctx=ast.Store())], value=cond), s_)
+                    cond = ast.Name(id=tmp, ctx=ast.Load())
+                for (c, (bl, holder), (a, b)) in zip(calls, homes, arms):
+                    h1, h2 = copy.deepcopy(holder), copy.deepcopy(holder)
+                    h1.value, h2.value = a, b
+                    bl[bl.index(holder)] = ast.copy_location(ast.If(test=copy.deepcopy(cond), body=[h1], orelse=[h2]), holder)
+                changed = any_change = True
+                break
+            if changed:
+                break
+        if changed:
+            continue
+        for c in [c for c in _own_nodes(node) if isinstance(c, ast.Call) and isinstance(c.func, ast.Lambda)]:
+            b = _apply_lambda(c.func, c)
+            if b is not None and _replace_expr(node, c, b):
+                changed = any_change = True
+                break
+    return any_change
+
+
+def _simple_holder(blk_stmt):
+    return isinstance(blk_stmt, (ast.Expr, ast.Assign, ast.AnnAssign, ast.AugAssign, ast.Return)) and getattr(blk_stmt, "value", None) is not None
+
+
+def _evaluated_once(stmt, expr):
+    """Is `expr` evaluated exactly once, unconditionally, whenever the simple statement `stmt` runs?"""
+    pm = A.parent_map(stmt)
+    n = expr
+    while n is not stmt and n is not None:
+        p_ = pm.get(n)
+        if isinstance(p_, ast.IfExp) and n is not p_.test:
+            return False
+        if isinstance(p_, ast.BoolOp) and n is not p_.values[0]:
+            return False
+        if isinstance(p_, (ast.ListComp, ast.SetComp, ast.DictComp, ast.GeneratorExp)) and not (p_.generators and n is p_.generators[0] and False):
+            if not (p_.generators and any(n is p_.generators[0].iter or n is x for x in [p_.generators[0].iter])):
+                return False
+        if isinstance(p_, ast.Lambda):
+            return False
+        n = p_
+    return n is stmt
+
+
+def _nf_dispatch(node):
+    """A call through a constant table of functions is the chain of tests it stands for:
+
+        table = {True: f, False: g}                      if cond:  x = f(a)
+        x = table[bool(cond)](a)              ==>        else:     x = g(a)
+
+    (also with the chosen function first bound to a local that is only called).  The table is bound once to a dict
+    display with constant keys and is used for nothing else."""
+    changed = False
+    st = _stores(node)
+    n_ = [0]
+    for blk in _blocks_of(node):
+        for s_ in list(blk):
+            if not (isinstance(s_, ast.Assign) and len(s_.targets) == 1 and isinstance(s_.targets[0], ast.Name) and isinstance(s_.value, ast.Dict)
+                    and s_.value.keys and all(isinstance(k, ast.Constant) for k in s_.value.keys)
+                    and all(isinstance(v, (ast.Name, ast.Attribute, ast.Lambda)) for v in s_.value.values) and st.get(s_.targets[0].id, 0) == 1):
+                continue
+            D = s_.targets[0].id
+            keys = [k.value for k in s_.value.keys]
+            if len(set(map(repr, keys))) != len(keys):
+                continue
+            mentions = [n for n in ast.walk(node) if isinstance(n, ast.Name) and n.id == D and n is not s_.targets[0]]
+            subs = [n for n in ast.walk(node) if isinstance(n, ast.Subscript) and isinstance(n.value, ast.Name) and n.value.id == D and isinstance(n.ctx, ast.Load)]
+            if not mentions or len(mentions) != len(subs):
+                continue
+            # every selection is called directly, or bound to a local that is only called
+            plans = []
+            ok = True
+            for sub in subs:
+                call = next((c for c in ast.walk(node) if isinstance(c, ast.Call) and c.func is sub), None)
+                if call is not None:
+                    plans.append((sub, [call], None))
+                    continue
+                bind = next((b for bl in _blocks_of(node) for b in bl if isinstance(b, ast.Assign) and b.value is sub and len(b.targets) == 1
+                             and isinstance(b.targets[0], ast.Name)), None)
+                if bind is None or st.get(bind.targets[0].id, 0) != 1:
+                    ok = False
+                    break
+                h = bind.targets[0].id
+                hm = [n for n in ast.walk(node) if isinstance(n, ast.Name) and n.id == h and n is not bind.targets[0]]
+                hc = [c for c in ast.walk(node) if isinstance(c, ast.Call) and isinstance(c.func, ast.Name) and c.func.id == h]
+                if not hm or len(hm) != len(hc):
+                    ok = False
+                    break
+                plans.append((sub, hc, bind))
+            if not ok:
+                continue
+            # each call sits in a simple statement and is evaluated once there
+            sites = []
+            for (sub, calls, bind) in plans:
+                for call in calls:
+                    home = next(((bl, x) for bl in _blocks_of(node) for x in bl if _simple_holder(x) and any(c is call for c in ast.walk(x))), None)
+                    if home is None or not _evaluated_once(home[1], call):
+                        ok = False
+                    sites.append((sub, call, bind, home))
+            if not ok:
+                continue
+            for (sub, call, bind, (bl, holder)) in sites:
+                n_[0] += 1
+                K = sub.slice
+                as_bool = set(map(repr, keys)) == {"True", "False"}
+                pre = []
+                if as_bool and isinstance(K, ast.Call) and isinstance(K.func, ast.Name) and K.func.id == "bool" and len(K.args) == 1 and not K.keywords:
+                    K = K.args[0]
+                if not _pure_arg(K) or bind is not None:
+                    tmp = "selector__t%d" % n_[0]
+                    asg = ast.copy_location(ast.Assign(targets=[ast.Name(id=tmp, ctx=ast.Store())], value=K), bind or holder)
+                    if bind is not None:
+                        for b2 in _blocks_of(node):
+                            if bind in b2:
+                                b2[b2.index(bind)] = asg
+                    else:
+                        pre = [asg]
+                    K = ast.Name(id=tmp, ctx=ast.Load())
+
+                def branch(fn_expr):
+                    h2 = copy.deepcopy(holder)
+                    # locate the copy of `call` by position in the walk
+                    idx = [i for i, c in enumerate(ast.walk(holder)) if c is call][0]
+                    c2 = list(ast.walk(h2))[idx]
+                    c2.func = copy.deepcopy(fn_expr)
+                    return h2
+                table = dict(zip(map(repr, keys), s_.value.values))
+                if as_bool:
+                    chain = ast.If(test=copy.deepcopy(K), body=[branch(table["True"])], orelse=[branch(table["False"])])
+                else:
+                    chain = ast.Raise(exc=ast.Call(func=ast.Name(id="KeyError", ctx=ast.Load()), args=[copy.deepcopy(K)], keywords=[]), cause=None)
+                    for k_, v_ in reversed(list(zip(s_.value.keys, s_.value.values))):
+                        chain = ast.If(test=ast.Compare(left=copy.deepcopy(K), ops=[ast.Eq()], comparators=[copy.deepcopy(k_)]), body=[branch(v_)], orelse=[chain])
+                ast.copy_location(chain, holder)
+                i = bl.index(holder)
+                bl[i:i + 1] = pre + [chain]
+            blk.remove(s_)
+            if not blk:
+                blk.append(ast.copy_location(ast.Pass(), s_))
+            changed = True
+    return changed
+
+
+def _nf_comprehension_loops(node, resolves):
+    """A list comprehension whose element calls a helper that can be written out becomes the loop it abbreviates
+    (`acc = []; for x in xs: acc.append(E)`), so that the helper's statements can take the place of the call."""
+    changed = False
+    n_ = [0]
+    st = _stores(node)
+    for blk in _blocks_of(node):
+        i = 0
+        while i < len(blk):
+            s_ = blk[i]
+            i += 1
+            if not _simple_holder(s_):
+                continue
+            comps = [c for c in ast.walk(s_.value) if isinstance(c, ast.ListComp) and len(c.generators) == 1 and not c.generators[0].is_async
+                     and any(isinstance(x, ast.Call) and resolves(x) for x in ast.walk(c.elt)) and _evaluated_once(s_, c)]
+            if not comps:
+                continue
+            comp = comps[0]
+            gen = comp.generators[0]
+            n_[0] += 1
+            # the comprehension's variables are its own: give them names nothing else in the function uses
+            ren = {}
+            for t in ast.walk(gen.target):
+                if isinstance(t, ast.Name) and st.get(t.id, 0) > 0:
+                    ren[t.id] = "%s__c%d" % (t.id, n_[0])
+
+            class R(ast.NodeTransformer):
+                def visit_Name(self, n):
+                    if n.id in ren:
+                        n.id = ren[n.id]
+                    return n
+            elt = R().visit(copy.deepcopy(comp.elt))
+            target = R().visit(copy.deepcopy(gen.target))
+            ifs = [R().visit(copy.deepcopy(x)) for x in gen.ifs]
+            whole = isinstance(s_, ast.Assign) and s_.value is comp and len(s_.targets) == 1 and isinstance(s_.targets[0], ast.Name) \
+                and st.get(s_.targets[0].id, 0) == 1
+            acc = s_.targets[0].id if whole else "collected__c%d" % n_[0]
+            init = ast.Assign(targets=[ast.Name(id=acc, ctx=ast.Store())], value=ast.List(elts=[], ctx=ast.Load()))
+            def mk_push(x):
+                return ast.Expr(value=ast.Call(func=ast.Attribute(value=ast.Name(id=acc, ctx=ast.Load()), attr="append", ctx=ast.Load()), args=[x], keywords=[]))
+            push = mk_push(elt)
+            if isinstance(elt, ast.IfExp):
+                # `A if c else B` as element: one append in each branch (a helper called in one arm only runs there)
+                push = ast.If(test=elt.test, body=[mk_push(elt.body)], orelse=[mk_push(elt.orelse)])
+            body = [push]
+            if ifs:
+                body = [ast.If(test=ifs[0] if len(ifs) == 1 else ast.BoolOp(op=ast.And(), values=ifs), body=[push], orelse=[])]
+            loop = ast.For(target=target, iter=gen.iter, body=body, orelse=[], type_comment=None)
+            for x in (init, loop):
+                ast.copy_location(x, s_)
+                for y in ast.walk(x):
+                    if not hasattr(y, "lineno"):
+                        ast.copy_location(y, comp)
+            new = [init, loop]
+            if not whole:
+                _replace_expr(s_, comp, ast.copy_location(ast.Name(id=acc, ctx=ast.Load()), comp))
+                new.append(s_)
+            blk[i - 1:i] = new
+            i += len(new) - 1
+            st = _stores(node)
+            changed = True
+    return changed
+
+
+def normal_form(ck, fi):
+    """`fi` as the rules read it: maps, lambdas, constant dispatch tables and comprehensions over helpers written out,
+    the helpers that this exposes inlined like any other new helper, canonical form re-applied.  The function itself
+    when none of these occurs in it (always so on the reference tree)."""
+    cache = ck.__dict__.setdefault("_normal_forms", {})
+    if fi.qual in cache:
+        return cache[fi.qual]
+    from ..inline import Inliner, _all_names
+    from ..loader import FuncInfo
+    from ..canon import canonicalise
+    node = copy.deepcopy(fi.node)
+    out = FuncInfo(fi.module, node, fi.qual, fi.cls, fi.parent)
+    fi.module._index_nested(out)
+    changed = _nf_maps(node)
+    changed = _nf_lambdas(node) or changed
+    changed = _nf_dispatch(node) or changed
+    inl = None
+    try:
+        inl = Inliner(ck.repo)
+    except Exception:   # noqa
+        inl = None
+    if inl is not None:
+        out.nested = {}
+        fi.module._index_nested(out)
+
+        def resolves(c):
+            try:
+                return inl.resolve(c, out) is not None
+            except Exception:   # noqa
+                return False
+        # a local closure that rebinds a variable of this function (`nonlocal n`) does, once written out in place,
+        # exactly what it did as a closure: the declaration is dropped so that it can be written out
+        stripped = []
+        shared = set()
+        for sub in list(out.nested.values()):
+            nl = [x for x in sub.node.body if isinstance(x, ast.Nonlocal)]
+            if nl and not any(isinstance(x, (ast.Nonlocal, ast.Global)) for y in sub.node.body for x in ast.walk(y) if x not in nl) \
+                    and not any(isinstance(x, _FUNCS + (ast.Lambda,)) for y in sub.node.body for x in ast.walk(y)):
+                sub.node.body = [x for x in sub.node.body if x not in nl] or [ast.Pass()]
+                stripped.append(sub.node.name)
+                shared |= {nm for x in nl for nm in x.names}
+                changed = True
+        changed = _nf_comprehension_loops(node, resolves) or changed
+        if changed:
+            out.nested = {}
+            fi.module._index_nested(out)
+            # (the variables such a closure shares with this function keep their names)
+            inl.rewrite_block_owner(node, out, _all_names(node) - shared, 0)
+        if any(isinstance(c, ast.Call) and isinstance(c.func, ast.Name) and c.func.id in stripped for c in _own_nodes(node)):
+            cache[fi.qual] = fi     # a call of such a closure is left: the function stays as it is
+            return fi
+    if not changed:
+        cache[fi.qual] = fi
+        return fi
+    ast.fix_missing_locations(node)
+    canonicalise(ast.Module(body=[node], type_ignores=[]))
+    out.nested = {}
+    fi.module._index_nested(out)
+    cache[fi.qual] = out
+    return out
+
+
+def nfa(ck, qual):
+    """FA of the function `qual` in its local normal form."""
+    return FA(ck, normal_form(ck, ck.fn(qual)))
 
 
 # =================================================================================================
@@ -457,7 +1239,7 @@ def per_element(seqs, expr, at, _depth=0):
 
 def _one_append_per_iteration(ck, fa: FA, loop_ast, list_name, rule, tag):
     """Every path loop-head(T) -> loop-head performs exactly one <list_name>.append."""
-    apps = [c for c in fa.calls("append") if A.dotted(A.call_recv(c)) == list_name and fa.inside(c, loop_ast)]
+    apps = [c.node for c in pushes(fa, list_name) if fa.inside(c.node, loop_ast)]
     miss, twice = iteration_counts(fa, heads_of(fa, loop_ast), fa.nodes_all(apps))
     ck.paths_enumerated += 1
     ck.ob(rule, fa.key(loop_ast, tag + "-at-least-one"), not miss and bool(apps),
@@ -519,7 +1301,7 @@ def batch_call_role(seqs, e, at):
 
 
 def precheck_elements_ok(seqs, arg, at):
-    elts = per_element(seqs, arg, at)
+    elts = [bound_value(seqs.fa, x, n) + (p,) for (x, n, p) in per_element(seqs, arg, at) or []]
     return bool(elts) and all(
         isinstance(x, ast.Call) and A.call_attr(x) == "fn_reference_with_arg_hash" and not x.args and not x.keywords
         and p.elem_role(seqs, A.call_recv(x), n) == "input" for (x, n, p) in elts)
@@ -532,9 +1314,8 @@ def batch_seqs(br):
 def _fill_sites(fa, res_name):
     """[(statement node ids, value expression)] for every statement that puts a value into the result list."""
     out = []
-    for c in fa.calls("append"):
-        if A.dotted(A.call_recv(c)) == res_name and len(c.args) == 1 and fa.nodes(c):
-            out.append((fa.nodes(c), c.args[0]))
+    for c in pushes(fa, res_name):
+        out.append((fa.nodes(c.node), c.elem))
     for st in fa.stmts(ast.Assign):
         if any(isinstance(t, ast.Subscript) and A.dotted(t.value) == res_name for t in st.targets) and fa.nodes(st):
             out.append((fa.nodes(st), st.value))
@@ -550,7 +1331,7 @@ def result_name(fa):
 
 def result_loops(fa, ploops, res_name, also=()):
     """The outermost position loops that put values into the result list (or contain one of the `also` nodes)."""
-    marks = [c for c in fa.calls("append") if A.dotted(A.call_recv(c)) == res_name]
+    marks = [c.node for c in pushes(fa, res_name)]
     marks += [st for st in fa.stmts(ast.Assign) if any(isinstance(t, ast.Subscript) and A.dotted(t.value) == res_name for t in st.targets)]
     marks += list(also)
     return [(l, p) for (l, p) in ploops if fa.enclosing(l, ast.For) is None and any(fa.inside(m, l) for m in marks)]
@@ -561,7 +1342,7 @@ def check_slots(ck, R1):
     cache/store merge of get_mementos)."""
     ck.rule(R1, "one slot per element: every path through one iteration of the batch loop (and of the cache/store merge) "
                 "fills exactly one result slot, at the element's input position; the list is returned unfiltered and unsorted", 5)
-    br = FA(ck, RL + ".LocalRunnerBackend.batch_run")
+    br = nfa(ck, RL + ".LocalRunnerBackend.batch_run")
     seqs = batch_seqs(br)
     # the result list is whatever local batch_run returns (its name does not matter)
     RES = result_name(br)
@@ -579,33 +1360,33 @@ def check_slots(ck, R1):
     else:
         # indexed form: every iteration assigns its slot or hands the element on unchanged; an
         # element that is deferred must be filled by a later loop at its own position (checked above)
-        appends = [c for c in br.calls("append") if A.dotted(A.call_recv(c)) == RES]
+        appends = pushes(br, RES)
         ck.ob(R1, br.key(loop_ast, "batch-no-mixed-forms"), not appends, "slots are filled by index only" if not appends else
               "results are filled both by index and by append", br.where(loop_ast))
     rets = br.returns()
     okr = len(rets) == 1 and isinstance(rets[0].value, ast.Name)
     ck.ob(R1, br.key(None, "returned-as-is"), okr, "results are returned unfiltered, in slot order" if okr else
           "batch_run does not return the plain results list", br.where())
-    muts = [c for c in br.calls() if A.dotted(A.call_recv(c)) == RES and A.call_attr(c) in MUTATORS]
+    muts = [c for c in other_edits(br, RES) if isinstance(c, ast.Call) or isinstance(c, ast.AugAssign)]
     ck.ob(R1, br.key(None, "no-reordering"), not muts, "results is only filled, never reordered" if not muts else
           "results is reordered or edited (%s)" % A.short(muts[0], 40), br.where(muts[0] if muts else None))
-    # the element handler turns an exception (of any class) into that element's slot: from the `except Exception`
-    # head of the try around memento_run_local, every path to the next element stores the caught exception
-    trs = [t for t in br.stmts(ast.Try) if any(A.call_attr(c) == "memento_run_local" for b in t.body for c in A.calls_in(b))]
-    okh = False
+    # whatever exception (of class Exception) the element's run raises ends in that element's slot: every handler the
+    # exception can arrive at leads, on every path, to a store of the caught exception before the next element — no
+    # handler lets it out (a narrower `except X: raise` in front of the catch-all aborts the batch for that class)
+    runs = [i for c in br.calls("memento_run_local") if br.inside(c, loop_ast) for i in br.nodes(c)]
     sites = _fill_sites(br, RES)
-    for t in trs:
-        for h in t.handlers:
-            if h.type is not None and A.norm(h.type) == "Exception" and h.name:
-                hn = [i for i in br.cfg.nodes_of(h) if i in br.cfg.reachable_nodes()]
-                stores = set()
-                for (ids, val) in sites:
-                    for i in ids:
-                        if "exc:Exception" in br.df.deps(val, i):
-                            stores.add(i)
-                r = br.cfg.reach(hn, removed=stores)
-                if hn and stores and not (set(heads) & r) and br.cfg.exit not in r:
-                    okh = True
+    stores = {i for (ids, val) in sites for i in ids if any(d.startswith("exc:") for d in br.df.deps(val, i))}
+    okh = bool(runs) and bool(stores)
+    for i in runs:
+        arrives = [d for (d, l) in br.cfg.succ[i] if l == "exc"]
+        heads_ = [br.cfg.node(d) for d in arrives]
+        okh = okh and bool(arrives) and all(nd.kind == "except" for nd in heads_) \
+            and any(nd.ast.type is not None and A.norm(nd.ast.type) == "Exception" and nd.ast.name for nd in heads_) \
+            and not any(nd.ast.type is None or A.norm(nd.ast.type) == "BaseException" for nd in heads_)
+        if okh:
+            r = sense(br).reach(arrives, removed=stores)
+            okh = not (set(heads) & r) and br.cfg.exit not in r and br.cfg.raise_exit not in r
+            ck.paths_enumerated += 1
     ck.ob(R1, br.key(loop_ast, "failure-in-slot"), okh, "a failing element's exception (of any class) is stored in its own slot" if okh else
           "an element's exception is not caught as `Exception` and stored in its slot: an error raised while running one element aborts or shifts the batch", br.where(loop_ast))
     ck.run(_check_merge, ck, R1)
@@ -636,10 +1417,7 @@ class GapSeqs(Seqs):
         fa = self.fa
         if not isinstance(e, ast.Name) or e.id in fa.df.params or len(all_defs(fa, e.id)) != 1:
             return False
-        if any(A.dotted(A.call_recv(c)) == e.id and A.call_attr(c) in MUTATORS + ("append",) for c in fa.calls()):
-            return False
-        if any(isinstance(t, ast.Subscript) and A.dotted(t.value) == e.id for st in fa.stmts((ast.Assign, ast.AugAssign, ast.Delete))
-               for t in (st.targets if isinstance(st, (ast.Assign, ast.Delete)) else [st.target])):
+        if pushes(fa, e.id) or other_edits(fa, e.id):
             return False
         v, vat = bound_value(fa, e, at)
         if not (isinstance(v, ast.ListComp) and len(v.generators) == 1 and len(v.generators[0].ifs) == 1):
@@ -699,13 +1477,19 @@ def _fills_gap(gm, seqs, gaps, res_name, st, idx):
 
 def _check_merge(ck, R1):
     """The cache/store merge of StorageBackendBase.get_mementos."""
-    gm = FA(ck, "storage_base.StorageBackendBase.get_mementos")
+    gm = nfa(ck, "storage_base.StorageBackendBase.get_mementos")
     seqs = Seqs(gm, "fns", merge_call_role)
     # roles: RESG = the returned list; the store answer = what the metadata source answered for the list of misses;
     # 'cache' = the per-position cache answers; the cursor is the counter indexing the store answer
     RESG = result_name(gm)
     qcalls = [c for c in gm.calls("get_mementos") if gm.nodes(c) and A.call_recv(c) is not None and gm.xnorm(A.call_recv(c), gm.nodes(c)[0]) == "self._metadata_source"]
     gm.some(qcalls, "metadata-source get_mementos call")
+    # asking the store for every input element, in order, and returning its answer is a merge with no hits: such a
+    # return (a cache-less back end answered up front) needs no further look
+    whole = [c for c in qcalls if len(c.args) == 1 and not c.keywords and seqs.role(unwrap_copy(c.args[0]), gm.nodes(c)[0]) == "input"
+             and any(r.value is not None and unwrap_copy(r.value) is c for r in gm.returns())]
+    qcalls = [c for c in qcalls if c not in whole]
+    gm.some(qcalls, "metadata-source get_mementos call for the cache misses")
 
     def is_store_answer(e, at):
         lv = origins(gm, e, at)
@@ -735,12 +1519,23 @@ def _check_merge(ck, R1):
     oki = len(cursors) == 1 and None not in cursors and bool(miss_edges)
     if not uses and miss_edges:
         # the store answer consumed through an iterator made once before the loop: next(it) is read + advance in one
-        def is_answer_iter(e, at):
+        def is_answer_iter(e, at, maker):
             lv = origins(gm, e, at)
-            return len(lv) == 1 and isinstance(lv[0][0], ast.Call) and isinstance(lv[0][0].func, ast.Name) and lv[0][0].func.id == "iter" \
-                and len(lv[0][0].args) == 1 and is_store_answer(lv[0][0].args[0], lv[0][1]) and not gm.inside(lv[0][0], ml) \
-                and gm.enclosing(lv[0][0], (ast.For, ast.While)) is None
-        nexts = [c for c in gm.calls("next") if isinstance(c.func, ast.Name) and c.args and gm.nodes(c) and is_answer_iter(c.args[0], gm.nodes(c)[0])]
+            if not (len(lv) == 1 and isinstance(lv[0][0], ast.Call) and isinstance(lv[0][0].func, ast.Name)):
+                return False
+            mk = lv[0][0]
+            made = mk.func.id == "iter" if maker == "iter" else gm.fi.module.imports.get(mk.func.id) == "collections:deque"
+            return made and len(mk.args) == 1 and not mk.keywords and is_store_answer(mk.args[0], lv[0][1]) and not gm.inside(mk, ml) \
+                and gm.enclosing(mk, (ast.For, ast.While)) is None
+        # read + advance in one: next(it) on an iterator, q.popleft() on a deque, made once from the store's answer
+        nexts = [c for c in gm.calls("next") if isinstance(c.func, ast.Name) and c.args and gm.nodes(c) and is_answer_iter(c.args[0], gm.nodes(c)[0], "iter")]
+        nexts += [c for c in gm.calls("popleft") if not c.args and gm.nodes(c) and is_answer_iter(A.call_recv(c), gm.nodes(c)[0], "deque")]
+        # ... and the object is used for nothing else
+        cursor_names = {A.dotted(c.args[0]) if A.call_attr(c) == "next" else A.dotted(A.call_recv(c)) for c in nexts}
+        stray = [n for n in A.walk_body(gm.node) if isinstance(n, ast.Name) and isinstance(n.ctx, ast.Load) and n.id in cursor_names
+                 and not any(n is (c.args[0] if A.call_attr(c) == "next" else A.call_recv(c)) for c in nexts)]
+        if stray:
+            nexts = []
         others = [c for c in nexts if not gm.inside(c, ml) or not gm.unconditional(c)]
         if nexts and not others:
             nn = gm.nodes_all(nexts)
@@ -789,18 +1584,18 @@ def _check_merge(ck, R1):
         elif isinstance(qf, ast.List) and not qf.elts and isinstance(c.args[0], ast.Name):
             # filled by a loop: appended to exactly on the misses of a position loop, with the input element
             name = c.args[0].id
-            touched = [x for x in gm.calls() if A.dotted(A.call_recv(x)) == name]
-            apps = [x for x in touched if A.call_attr(x) == "append" and len(x.args) == 1 and gm.nodes(x)]
-            homes = [enclosing_position(gm, ploops, x) for x in apps]
-            okq = bool(apps) and len(apps) == len(touched) and all(h is not None and h[0] is homes[0][0] for h in homes)
+            apps = pushes(gm, name)
+            homes = [enclosing_position(gm, ploops, x.node) for x in apps]
+            okq = bool(apps) and not other_edits(gm, name) and all(h is not None and h[0] is homes[0][0] for h in homes)
             if okq:
                 ql, qp = homes[0]
 
                 def is_ce(e, n, qp=qp):
                     return qp.elem_role(seqs, e, n) == "cache"
-                okq = all(qp.elem_role(seqs, x.args[0], gm.nodes(x)[0]) == "input" for x in apps) \
-                    and exactly_on(gm, heads_of(gm, ql), gm.nodes_all(apps), absent_edges(gm, is_ce), present_edges(gm, is_ce)) \
-                    and not iteration_counts(gm, heads_of(gm, ql), gm.nodes_all(apps))[1]
+                an = gm.nodes_all(x.node for x in apps)
+                okq = all(qp.elem_role(seqs, x.elem, gm.nodes(x.node)[0]) == "input" for x in apps) \
+                    and exactly_on(gm, heads_of(gm, ql), an, absent_edges(gm, is_ce), present_edges(gm, is_ce)) \
+                    and not iteration_counts(gm, heads_of(gm, ql), an)[1]
         else:
             okq = False
     ck.ob(R1, gm.key(None, "miss-list"), okq, "the store is queried for exactly the cache misses, in order" if okq else
@@ -813,7 +1608,7 @@ def check_batch_goes_through_runner(ck, R):
     store first (a fail-fast on memoized failures, a shortcut for memoized values) raises / returns for
     one element before the earlier ones were computed — not what element-wise calls in order give."""
     for q in ("base.MementoFunctionBase.call_batch", "base.MementoFunctionBase.call"):
-        fa = FA(ck, q)
+        fa = nfa(ck, q)
         runs = fa.nodes_all(fa.calls("memento_run_batch"))
         ck.need(runs, "%s: memento_run_batch call not found" % q)
 
@@ -861,46 +1656,513 @@ def _is_run_result(cb, run, e, at):
     return bool(lv) and all(x is run for (x, _n) in lv)
 
 
-def _first_exception_ok(cb, run):
-    """Iff raise_first_exception, the first element (in order) of the runner's answer that is an Exception instance
-    is raised: decided on the conditions under which each `raise <element>` is reached, relative to those under
-    which the runner was called."""
-    base_c = cb.conditions(cb.nodes(run)[0])
-    if base_c is None:
-        raise AnalysisError("call_batch: too many paths")
-    base = frozenset.intersection(*base_c) if base_c else frozenset()
-    RFE = ("raise_first_exception", True)
+# ---- "the first failing element, in order" ---------------------------------------------------------------------
+
+def eval3(fa, t, n, atom, _depth=0):
+    """Three-valued value (True / False / None = not decided) of the branch test `t` at CFG node `n` when the atomic
+    tests `atom(expr, node)` recognises have the values it answers.  Negation, conjunction, disjunction, conditional
+    expressions and boolean locals bound once are evaluated through."""
+    v = atom(t, n)
+    if v is not None:
+        return v
+    if isinstance(t, ast.UnaryOp) and isinstance(t.op, ast.Not):
+        x = eval3(fa, t.operand, n, atom, _depth)
+        return None if x is None else not x
+    if isinstance(t, ast.BoolOp):
+        vs = [eval3(fa, x, n, atom, _depth) for x in t.values]
+        dom = isinstance(t.op, ast.Or)
+        if any(x is dom for x in vs):
+            return dom
+        return (not dom) if all(x is (not dom) for x in vs) else None
+    if isinstance(t, ast.IfExp):
+        c = eval3(fa, t.test, n, atom, _depth)
+        a, b = eval3(fa, t.body, n, atom, _depth), eval3(fa, t.orelse, n, atom, _depth)
+        if c is None:
+            return a if a is b else None
+        return a if c else b
+    if isinstance(t, ast.Name) and _depth < 4:
+        e, at = bound_value(fa, t, n)
+        if e is not t and isinstance(e, (ast.Compare, ast.BoolOp, ast.UnaryOp, ast.IfExp, ast.Call)):
+            return eval3(fa, e, at, atom, _depth + 1)
+    return None
+
+
+def under(fa, atom, follow_exc=False):
+    """edge_ok predicate: only the branch edges that can be taken when the atomic tests have the values `atom` gives
+    them.  Unless `follow_exc`, exception edges out of anything but a `raise` statement are not followed (a scan
+    itself does not fail)."""
+    def ok(s, d, l):
+        nd = fa.cfg.node(s)
+        if l == "exc":
+            return follow_exc or isinstance(nd.ast, ast.Raise)
+        if l == "T" and nd.kind == "for" and isinstance(nd.ast.iter, ast.IfExp):
+            # `for x in (xs if flag else ())`: with the empty alternative selected the body does not run
+            taken = eval3(fa, nd.ast.iter.test, s, atom)
+            arm = None if taken is None else (nd.ast.iter.body if taken else nd.ast.iter.orelse)
+            if isinstance(arm, (ast.Tuple, ast.List)) and not arm.elts:
+                return False
+        if l in ("T", "F") and nd.kind == "test" and nd.ast is not None:
+            v = eval3(fa, nd.ast, s, atom)
+            return v is None or v == (l == "T")
+        return True
+    return ok
+
+
+def failure_test(e):
+    """X for `isinstance(X, Exception)` — the test by which a result slot is told from a failure slot."""
+    if isinstance(e, ast.Call) and isinstance(e.func, ast.Name) and e.func.id == "isinstance" and len(e.args) == 2 and not e.keywords \
+            and isinstance(e.args[1], ast.Name) and e.args[1].id == "Exception":
+        return e.args[0]
+    return None
+
+
+def resolve_local_callee(ck, fa, call):
+    """(FuncInfo, parameter names without self) of a call of a function of the same module / a method of the same
+    class (through self / cls / the class name), else None."""
+    f = call.func
+    fi = None
+    bound = False
+    if isinstance(f, ast.Name):
+        fi = fa.fi.module.functions.get(f.id)
+    elif isinstance(f, ast.Attribute) and isinstance(f.value, ast.Name) and fa.fi.cls is not None:
+        top = fa.fi
+        while top.parent is not None:
+            top = top.parent
+        if f.value.id in ("self", "cls") or f.value.id == top.cls.name:
+            fi = ck.repo.find_method(top.cls, f.attr)
+            bound = fi is not None and not fi.is_static
+    if fi is None or fi.node.args.vararg or fi.node.args.kwarg:
+        return None
+    ps = [a.arg for a in fi.node.args.posonlyargs + fi.node.args.args]
+    return fi, (ps[1:] if bound else ps)
+
+
+class FirstFailure:
+    """Decides "this is the first element (in order) of the sequence with role `role` that is an Exception instance":
+    as a loop that walks the sequence and acts (raise / return / keep-and-stop) on exactly the first failing element,
+    as a value (`next(<failing elements>, None)`, the head of the list of failing elements, a local filled by such a
+    loop, the result of a local function that returns such a value), under an optional standing assumption about
+    other tests (`assume(expr, node)` -> True / False / None)."""
+
+    def __init__(self, ck, fa, seqs, role, assume=None):
+        self.ck, self.fa, self.seqs, self.role = ck, fa, seqs, role
+        self.assume = assume or (lambda e, n: None)
+        self.ploops = [(l, p) for (l, p) in position_loops(fa, seqs) if fa.enclosing(l, (ast.For, ast.While)) is None]
+        self._scan_cache = {}
+
+    # ---- loops ------------------------------------------------------------------------------------------------
+    def home(self, node):
+        """The scan loop (For, PosIter) around `node`."""
+        for (l, p) in self.ploops:
+            if self.fa.inside(node, l):
+                return (l, p)
+        return None
+
+    def current(self, lp, p, e, at):
+        """Does `e` denote the element the loop is looking at?"""
+        return p.elem_role(self.seqs, e, at) == self.role
+
+    def scan_complete(self, lp, p, actions):
+        """The loop visits the elements in order and, for the first failing one, performs one of `actions` and stops;
+        for every other element it goes on to the next one without acting."""
+        fa = self.fa
+        key = (id(lp), tuple(sorted(actions)))
+        if key in self._scan_cache:
+            return self._scan_cache[key]
+        heads = heads_of(fa, lp)
+        H, acts = set(heads), set(actions)
+        starts = body_starts(fa, heads)
+
+        def atom(val):
+            def f(e, n):
+                x = failure_test(e)
+                if x is not None and self.current(lp, p, x, n):
+                    return val
+                return self.assume(e, n)
+            return f
+
+        def inside(i):
+            a = fa.cfg.node(i).ast
+            return a is not None and fa.inside(a, lp)
+        ok = bool(acts) and bool(starts)
+        if ok:
+            # a failing element: an action is reached, never the next element or the code after the loop without one
+            r = fa.cfg.reach(starts, removed=acts, edge_ok=under(fa, atom(True)))
+            ok = not any(i in H or not inside(i) for i in r)
+        if ok:
+            # any other element: nothing is acted on and the loop goes on to the next element
+            r = fa.cfg.reach(starts, removed=H, edge_ok=under(fa, atom(False)))
+            ok = not (r & acts) and all(inside(i) for i in r)
+        if ok:
+            # after acting the scan is over
+            ok = not any(H & fa.cfg.reach([a], include_start=False) for a in acts)
+        self.ck.paths_enumerated += 3
+        self._scan_cache[key] = ok
+        return ok
+
+    # ---- values -----------------------------------------------------------------------------------------------
+    def cases(self, e, at, gates=(), _seen=None, _depth=0):
+        """What `e` (at node `at`) may hold: [(leaf expression, node, gates)] through every reaching plain assignment
+        and both arms of conditional expressions (gates = ((test, node, arm taken), ...))."""
+        seen = _seen if _seen is not None else set()
+        if isinstance(e, ast.IfExp):
+            return self.cases(e.body, at, gates + ((e.test, at, True),), seen, _depth) + \
+                self.cases(e.orelse, at, gates + ((e.test, at, False),), seen, _depth)
+        if isinstance(e, ast.Name) and _depth < 10:
+            ds = self.fa.df.reaching(at, e.id)
+            if ds and all(d.kind == "assign" and d.value is not None for d in ds):
+                out = []
+                for d in ds:
+                    if (d.node, d.name) in seen:
+                        continue
+                    seen.add((d.node, d.name))
+                    out += self.cases(d.value, d.node, gates, seen, _depth + 1)
+                return out
+        return [(e, at, gates)]
+
+    def _failing(self, g, at, what):
+        """Is the comprehension / generator `g` "the failing elements of the sequence, in order" (what='elem') / "the
+        positions of the failing elements, ascending" (what='pos')?"""
+        if not isinstance(g, (ast.GeneratorExp, ast.ListComp)) or len(g.generators) != 1:
+            return False
+        gen = g.generators[0]
+        if len(gen.ifs) != 1 or gen.is_async:
+            return False
+        p = pos_iter(self.seqs, gen.target, gen.iter, at)
+        x = failure_test(gen.ifs[0])
+        if p is None or x is None or p.elem_role(self.seqs, x, at) != self.role:
+            return False
+        if what == "pos":
+            return p.pos is not None and isinstance(g.elt, ast.Name) and g.elt.id == p.pos
+        return p.elem_role(self.seqs, g.elt, at) == self.role
+
+    def _one_origin(self, e, at):
+        lv = origins(self.fa, e, at)
+        return lv[0] if len(lv) == 1 else (None, None)
+
+    @staticmethod
+    def _nonempty(lst):
+        """Presence test read off a list: `lst`, `len(lst)`, `len(lst) > 0 / != 0 / == 0` say whether it has elements."""
+        want = A.norm(lst)
+
+        def pred(t, n):
+            inner, sign = t, True
+            if isinstance(t, ast.Compare) and len(t.ops) == 1 and isinstance(t.comparators[0], ast.Constant) and t.comparators[0].value == 0 \
+                    and isinstance(t.ops[0], (ast.Gt, ast.NotEq, ast.Eq)):
+                inner, sign = t.left, not isinstance(t.ops[0], ast.Eq)
+                if not (isinstance(inner, ast.Call) and isinstance(inner.func, ast.Name) and inner.func.id == "len"):
+                    return None
+            if isinstance(inner, ast.Call) and isinstance(inner.func, ast.Name) and inner.func.id == "len" and len(inner.args) == 1 and not inner.keywords:
+                inner = inner.args[0]
+            if isinstance(inner, ast.Name) and A.norm(inner) == want:
+                return sign
+            return None
+        return pred
+
+    def _cursor(self, leaf, at):
+        """`xs[i]` after `i = 0; while i < len(xs) and not isinstance(xs[i], Exception): i += 1` — the linear search for
+        the first failing element: (loop test nodes, presence test "i is still inside the list")."""
+        fa = self.fa
+        if not (isinstance(leaf, ast.Subscript) and isinstance(leaf.slice, ast.Name) and self.seqs.role(leaf.value, at) == self.role):
+            return None
+        i = leaf.slice.id
+        ds = fa.df.reaching(at, i)
+        steps = [d for d in ds if d.kind == "aug"]
+        inits = [d for d in ds if d.kind == "assign"]
+        if len(steps) != 1 or len(inits) != 1 or len(ds) != 2 or len(all_defs(fa, i)) != 2 or i in fa.df.params:
+            return None
+        st = steps[0].stmt
+        if not (isinstance(inits[0].value, ast.Constant) and type(inits[0].value.value) is int and inits[0].value.value == 0
+                and isinstance(st.op, ast.Add) and isinstance(st.value, ast.Constant) and st.value.value == 1):
+            return None
+        w = fa.enclosing(st, (ast.While, ast.For))
+        if not isinstance(w, ast.While) or w.orelse or len(w.body) != 1 or w.body[0] is not st or fa.enclosing(w, (ast.While, ast.For)) is not None \
+                or fa.inside(fa.cfg.node(at).ast, w) or fa.inside(inits[0].stmt, w):
+            return None
+        wn = fa.nodes(w)
+        conj = w.test.values if isinstance(w.test, ast.BoolOp) and isinstance(w.test.op, ast.And) else [w.test]
+
+        def length_of(e, n):
+            e, n = bound_value(fa, e, n)
+            return isinstance(e, ast.Call) and isinstance(e.func, ast.Name) and e.func.id == "len" and len(e.args) == 1 and self.seqs.role(e.args[0], n) == self.role
+
+        def inside_list(t, n):
+            """`i < len(xs)` (True) / `i >= len(xs)`, `i == len(xs)` (False)"""
+            if isinstance(t, ast.Compare) and len(t.ops) == 1 and isinstance(t.left, ast.Name) and t.left.id == i and length_of(t.comparators[0], n):
+                if isinstance(t.ops[0], (ast.Lt, ast.NotEq)):
+                    return True
+                if isinstance(t.ops[0], (ast.GtE, ast.Eq)):
+                    return False
+            return None
+        if len(conj) != 2 or not wn:
+            return None
+        bound, going = conj
+        x = failure_test(going.operand) if isinstance(going, ast.UnaryOp) and isinstance(going.op, ast.Not) else None
+        if inside_list(bound, wn[0]) is not True or not (isinstance(x, ast.Subscript) and isinstance(x.slice, ast.Name) and x.slice.id == i
+                                                          and self.seqs.role(x.value, wn[0]) == self.role):
+            return None
+        return wn, inside_list
+
+    def hit_leaf(self, leaf, at):
+        """For a leaf expression that denotes the first failing element (or None when there is none): (entry nodes,
+        commit nodes, presence test or None) — every evaluation passes an entry node, the choice is made at a commit
+        node, and when the leaf can only be evaluated if a failing element exists (the head of the list of failing
+        elements, the slot a search cursor stopped at) the third component reads tests for "there is one".
+        None: not such a leaf."""
+        fa = self.fa
+        if isinstance(leaf, ast.Call) and isinstance(leaf.func, ast.Name) and leaf.func.id == "next" and len(leaf.args) == 2 \
+                and not leaf.keywords and A.is_none(leaf.args[1]):
+            g, gat = self._one_origin(leaf.args[0], at)
+            if g is not None and isinstance(g, ast.GeneratorExp) and self._failing(g, gat, "elem"):
+                return [at], [at], None
+            return None
+        if isinstance(leaf, ast.Subscript) and isinstance(leaf.slice, ast.Constant) and type(leaf.slice.value) is int and leaf.slice.value == 0:
+            g, gat = self._one_origin(leaf.value, at)
+            if g is not None and isinstance(g, ast.ListComp) and self._failing(g, gat, "elem") and not self._edited(leaf.value):
+                return [at], [at], self._nonempty(leaf.value)
+            return None
+        if isinstance(leaf, ast.Subscript) and isinstance(leaf.slice, ast.Subscript) and isinstance(leaf.slice.slice, ast.Constant) \
+                and type(leaf.slice.slice.value) is int and leaf.slice.slice.value == 0 and self.seqs.role(leaf.value, at) == self.role:
+            # xs[positions[0]] for the ascending list of failing positions
+            pl = leaf.slice.value
+            g, gat = self._one_origin(pl, at)
+            if g is not None and isinstance(g, ast.ListComp) and self._failing(g, gat, "pos") and not self._edited(pl):
+                return [at], [at], self._nonempty(pl)
+            return None
+        if isinstance(leaf, ast.Subscript) and isinstance(leaf.slice, ast.Name):
+            c = self._cursor(leaf, at)
+            if c is not None:
+                return list(c[0]), list(c[0]), c[1]
+            return None
+        if isinstance(leaf, ast.Call):
+            r = resolve_local_callee(self.ck, fa, leaf)
+            if r is None or any(isinstance(a, ast.Starred) for a in leaf.args) or any(k.arg is None for k in leaf.keywords):
+                return None
+            fi, params = r
+            fed = [params[i] for i, a in enumerate(leaf.args) if i < len(params) and self.seqs.role(a, at) == self.role] + \
+                  [k.arg for k in leaf.keywords if k.arg in params and self.seqs.role(k.value, at) == self.role]
+            if len(fed) == 1 and returns_first_failure(self.ck, fi, fed[0]):
+                return [at], [at], None
+            return None
+        if isinstance(leaf, ast.Name):
+            # a local that keeps the element a scan loop stopped at
+            st = fa.cfg.node(at).ast
+            h = self.home(st) if st is not None else None
+            if h is not None and self.current(h[0], h[1], leaf, at):
+                return heads_of(fa, h[0]), [at], None
+        return None
+
+    def _edited(self, e):
+        """Is the local list `e` changed after it was made?"""
+        if not isinstance(e, ast.Name):
+            return False
+        fa = self.fa
+        if len(all_defs(fa, e.id)) != 1 or e.id in fa.df.params:
+            return True
+        return bool(pushes(fa, e.id) or other_edits(fa, e.id))
+
+    def value(self, e, at):
+        """If `e` holds the first failing element, or None when there is none: the list of its non-None cases as
+        (entry nodes, commit nodes, gates, presence test); None when `e` may hold anything else."""
+        fa = self.fa
+        out = []
+        kept = {}
+        for (leaf, n, gates) in self.cases(e, at):
+            if A.is_none(leaf):
+                continue
+            h = self.hit_leaf(leaf, n)
+            if h is None:
+                return None
+            entry, commit, pres = h
+            st = fa.cfg.node(n).ast
+            home = self.home(st) if (isinstance(leaf, ast.Name) and st is not None) else None
+            if home is not None:
+                kept.setdefault(id(home[0]), (home, []))[1].append(n)
+            out.append((entry, commit, gates, pres))
+        for (home, acts) in kept.values():
+            if not self.scan_complete(home[0], home[1], acts):
+                return None
+        return out or None
+
+    def present(self, val, e, at, preds, base):
+        """Atom: every test that says "the value `e` (as read at node `at`) is not None / is truthy", or that one of
+        the presence tests `preds` reads as "there is a failing element", has the value `val`; other tests as `base`
+        says."""
+        fa = self.fa
+        want = fa.xnorm(e, at)
+
+        def f(t, n):
+            nt = none_test(t)
+            x, v = (nt[0], (not nt[1]) == val) if nt is not None else (t, val)
+            if isinstance(x, ast.NamedExpr) and isinstance(x.target, ast.Name):
+                # `(v := E) is not None`: the test binds what is raised
+                if isinstance(e, ast.Name) and e.id == x.target.id and [d.node for d in fa.df.reaching(at, e.id)] == [n]:
+                    return v
+            elif isinstance(x, (ast.Name, ast.Attribute, ast.Subscript)) and fa.xnorm(x, n) == want \
+                    and (not isinstance(x, ast.Name) or n == at or fa.df.same_defs(x.id, n, at)):
+                return v
+            for pr in preds:
+                got = pr(t, n)
+                if got is not None:
+                    return got == val
+            return base(t, n)
+        return f
+
+
+_RFF_BUSY = set()
+NOTHING = (lambda e, n: None)
+
+
+def returns_first_failure(ck, fi, pname):
+    """Does the function return the first element (in order) of its parameter `pname` that is an Exception instance,
+    and None when there is none — on every path, whatever the other parameters are?"""
+    key = (fi.qual, pname)
+    if key in _RFF_BUSY:
+        return False
+    _RFF_BUSY.add(key)
+    try:
+        g = FA(ck, normal_form(ck, fi))
+        if pname not in g.fi.params or any(isinstance(x, (ast.Yield, ast.YieldFrom, ast.Await)) for x in ast.walk(g.node)):
+            return False
+        ff = FirstFailure(ck, g, Seqs(g, pname), "input")
+        rets = [r for r in g.returns() if g.nodes(r)]
+        in_loop = {}
+        nones, scans = [], []
+        ok = True
+        for r in rets:
+            at = g.nodes(r)[0]
+            if r.value is None or A.is_none(r.value):
+                nones += g.nodes(r)
+                continue
+            h = ff.home(r)
+            if h is not None and ff.current(h[0], h[1], r.value, at):
+                in_loop.setdefault(id(h[0]), (h, []))[1].extend(g.nodes(r))
+                continue
+            cs = ff.value(r.value, at)
+            if cs is None:
+                return False
+            preds = [l for (_e, _c, _g, l) in cs if l is not None]
+            for (entry, _commit, gates, pres) in cs:
+                # the case is selected when there is a failing element, and (a leaf that needs one to exist) only then
+                on = all(eval3(g, t, n, ff.present(True, r.value, at, preds, NOTHING)) is arm for (t, n, arm) in gates)
+                off = pres is None or any(eval3(g, t, n, ff.present(False, r.value, at, preds, NOTHING)) is (not arm) for (t, n, arm) in gates)
+                # and it is computed on every path to this return
+                ok = ok and on and off and all(g.cfg.must_pass(entry, i) for i in g.nodes(r))
+        for (h, acts) in in_loop.values():
+            ok = ok and ff.scan_complete(h[0], h[1], acts)
+            scans += heads_of(g, h[0])
+        # "None" is answered only after a scan came to its end
+        falls = g.cfg.exit in g.cfg.reach([g.cfg.entry], removed=set(g.nodes_all(rets)))
+        if nones or falls:
+            ok = ok and bool(scans) and all(g.cfg.must_pass(scans, i) for i in nones)
+            if falls:
+                ok = ok and g.cfg.exit not in g.cfg.reach([g.cfg.entry], removed=set(g.nodes_all(rets)) | set(scans))
+        return ok and bool(rets)
+    finally:
+        _RFF_BUSY.discard(key)
+
+
+def _first_exception_ok(ck, cb, run):
+    """Iff raise_first_exception, the first element (in order) of the runner's answer that is an Exception instance is
+    raised.  Decided on what can be reached from the runner call when the flag is taken as set / as not set and a
+    failing element as present / absent: with the flag set, a complete in-order scan of the answer stands between the
+    runner call and every normal return and its first failing element is raised (and nothing is raised when there is
+    none); with the flag not set no element is chosen."""
+    FLAG = "raise_first_exception"
+
+    def flag(val):
+        def f(e, n):
+            if isinstance(e, ast.Name) and cb.xnorm(e, n) == FLAG and all(d.kind == "param" for d in cb.df.reaching(n, FLAG)):
+                return val
+            return None
+        return f
+
+    def answer_role(seqs, e, at):
+        return "answer" if e is run else None
+
+    seqs = Seqs(cb, None, answer_role)
+    seqs.assume = flag(True)
+    ff = FirstFailure(ck, cb, seqs, "answer", flag(True))
+    start = cb.nodes(run)
+    after = cb.cfg.reach(start, include_start=False)
+    raises = []
     for r in cb.stmts(ast.Raise):
-        if not isinstance(r.exc, ast.Name) or not cb.nodes(r):
+        if r.exc is None or not (set(cb.nodes(r)) & after):
             continue
+        if isinstance(r.exc, ast.Call) and isinstance(r.exc.func, ast.Name) and r.exc.func.id[:1].isupper():
+            continue  # a freshly constructed error (argument validation)
+        raises.append(r)
+    if not raises:
+        return False
+    after_off = cb.cfg.reach(start, edge_ok=under(cb, flag(False)), include_start=False)
+    in_loop = {}
+    for r in raises:
         at = cb.nodes(r)[0]
-        conds = cb.conditions(r)
-        if conds is None:
-            raise AnalysisError("call_batch: too many paths")
-        extras = {frozenset(c - base) for c in conds}
-        # (a) `for x in <answer>: if isinstance(x, Exception): raise x`
-        ds = cb.df.reaching(at, r.exc.id)
-        if ds and all(d.kind == "for" for d in ds) and len({id(d.stmt) for d in ds}) == 1:
-            lp = ds[0].stmt
-            if isinstance(lp.target, ast.Name) and cb.inside(r, lp) and _is_run_result(cb, run, lp.iter, cb.nodes(lp)[0]) \
-                    and extras == {frozenset({RFE, ("isinstance(%s, Exception)" % r.exc.id, True)})}:
-                # and the scan is not cut short: an iteration ends in this raise or goes on to the next element
-                hs = heads_of(cb, lp)
-                if cb.cfg.exit not in cb.cfg.reach(body_starts(cb, hs), removed=set(hs) | set(cb.nodes(r))):
-                    return True
-        # (b) `x = next((y for y in <answer> if isinstance(y, Exception)), None)`, raised when it is not None
-        lv = origins(cb, r.exc, at)
-        if len(lv) == 1 and isinstance(lv[0][0], ast.Call) and A.call_attr(lv[0][0]) == "next" and len(lv[0][0].args) == 2 \
-                and A.is_none(lv[0][0].args[1]) and isinstance(lv[0][0].args[0], ast.GeneratorExp):
-            g = lv[0][0].args[0]
-            gen = g.generators[0]
-            if len(g.generators) == 1 and isinstance(gen.target, ast.Name) and A.norm(g.elt) == gen.target.id \
-                    and [A.norm(c) for c in gen.ifs] == ["isinstance(%s, Exception)" % gen.target.id] \
-                    and _is_run_result(cb, run, gen.iter, lv[0][1]):
-                x = cb.xnorm(r.exc, at)
-                if extras in ({frozenset({RFE, (x + " is None", False)})}, {frozenset({RFE, (x, True)})}):
-                    return True
-    return False
+        h = ff.home(r)
+        if h is not None and ff.current(h[0], h[1], r.exc, at):
+            in_loop.setdefault(id(h[0]), (h, []))[1].extend(cb.nodes(r))
+            continue
+        # `raise V` for a value V that holds the first failing element, or None
+        cs = ff.value(r.exc, at)
+        if cs is None:
+            return False
+        lists = [l for (_e, _c, _g, l) in cs if l is not None]
+        there = ff.present(True, r.exc, at, lists, flag(True))
+        for (entry, commit, gates, _pres) in cs:
+            # flag not set: the raise is not reached, or the element is not chosen (or the choice is gated by the flag)
+            off = not (set(cb.nodes(r)) & after_off) or not (set(commit) & after_off) or any(eval3(cb, t, n, flag(False)) is (not arm) for (t, n, arm) in gates)
+            # flag set and a failing element present: the gates select this case
+            on = all(eval3(cb, t, n, there) is arm for (t, n, arm) in gates)
+            if not (off and on):
+                return False
+        entries = {i for (e_, _c, _g, _l) in cs for i in e_}
+        commits = {i for (_e, c_, _g, _l) in cs for i in c_}
+        same = set(cb.nodes_all([q for q in raises if cb.xnorm(q.exc, cb.nodes(q)[0]) == cb.xnorm(r.exc, at)]))
+        # flag set, a failing element present: no normal return, and the raise comes after the scan
+        if cb.cfg.exit in cb.cfg.reach(start, removed=same, edge_ok=under(cb, there), include_start=False):
+            return False
+        if set(cb.nodes(r)) & cb.cfg.reach(start, removed=entries, edge_ok=under(cb, there), include_start=False):
+            return False
+        # no failing element (or nothing chosen because the flag is not set): V is None and is not raised
+        for base in (flag(True), flag(False)):
+            if set(cb.nodes(r)) & cb.cfg.reach(start, edge_ok=under(cb, ff.present(False, r.exc, at, lists, base)), include_start=False):
+                return False
+        # what was found is not replaced before it is raised
+        if isinstance(r.exc, ast.Name):
+            others = {d.node for d in all_defs(cb, r.exc.id)} - commits
+            before_raise = {i for i in after if set(cb.nodes(r)) & cb.cfg.reach([i], include_start=False)}
+            if others & before_raise & cb.cfg.reach(sorted(commits), edge_ok=under(cb, flag(True)), include_start=False):
+                return False
+    for (h, acts) in in_loop.values():
+        lp, p = h
+        if not ff.scan_complete(lp, p, acts):
+            return False
+        if set(acts) & after_off:
+            return False
+        if cb.cfg.exit in cb.cfg.reach(start, removed=set(heads_of(cb, lp)), edge_ok=under(cb, flag(True)), include_start=False):
+            return False
+    return True
+
+
+def single_entry(x):
+    """(key, value) of a dictionary with exactly one entry: `{k: v}`, `dict([(k, v)])`, `dict(((k, v),))`."""
+    if isinstance(x, ast.Dict) and len(x.keys) == 1 and x.keys[0] is not None:
+        return x.keys[0], x.values[0]
+    if isinstance(x, ast.Call) and isinstance(x.func, ast.Name) and x.func.id == "dict" and len(x.args) == 1 and not x.keywords:
+        pair = single_item(x.args[0])
+        if isinstance(pair, ast.Tuple) and len(pair.elts) == 2:
+            return pair.elts[0], pair.elts[1]
+    return None
+
+
+def as_dict_comprehension(v):
+    """(key, value, generators) of `{k: v for ...}` / `dict((k, v) for ...)` / `dict([(k, v) for ...])`."""
+    if isinstance(v, ast.DictComp):
+        return v.key, v.value, v.generators
+    if isinstance(v, ast.Call) and isinstance(v.func, ast.Name) and v.func.id == "dict" and len(v.args) == 1 and not v.keywords \
+            and isinstance(v.args[0], (ast.GeneratorExp, ast.ListComp)) and isinstance(v.args[0].elt, ast.Tuple) and len(v.args[0].elt.elts) == 2:
+        return v.args[0].elt.elts[0], v.args[0].elt.elts[1], v.args[0].generators
+    return None
 
 
 def _range_call_role(mr):
@@ -916,15 +2178,20 @@ def _range_call_role(mr):
             if "param:kwargs" in d and all(x.split(":", 1)[1] in RAW for x in d if x.startswith("call:")):
                 return "values:%d" % id(e)
             return None
-        if A.call_attr(e) == "call_batch" and len(e.args) >= 1:
-            elts = per_element(seqs, e.args[0], at)
+        if A.call_attr(e) == "call_batch" and A.arg_or_kw(e, 0, "kwargs_list") is not None:
+            # failures are raised, not paired with their values (the default; spelled out or not)
+            rfe = A.arg_or_kw(e, 1, "raise_first_exception")
+            if rfe is not None and not (isinstance(rfe, ast.Constant) and rfe.value is True):
+                return None
+            elts = per_element(seqs, A.arg_or_kw(e, 0, "kwargs_list"), at)
             if not elts:
                 return None
             ids = set()
             for (x, n, p) in elts:
-                if not (isinstance(x, ast.Dict) and len(x.keys) == 1 and x.keys[0] is not None):
+                x, n = bound_value(mr, x, n)
+                if single_entry(x) is None:
                     return None
-                r = p.elem_role(seqs, x.values[0], n)
+                r = p.elem_role(seqs, single_entry(x)[1], n)
                 if not (r or "").startswith("values:"):
                     return None
                 ids.add(r.split(":")[1])
@@ -944,13 +2211,16 @@ def _pairing_ok(mr, ret):
     if len(lv) != 1:
         return False
     v, vat = lv[0]
-    if isinstance(v, ast.DictComp):
-        if len(v.generators) != 1 or v.generators[0].ifs:
+    dc = as_dict_comprehension(v)
+    if dc is not None:
+        key, val, gens = dc
+        if len(gens) != 1 or gens[0].ifs:
             return False
-        p = pos_iter(seqs, v.generators[0].target, v.generators[0].iter, vat)
-        return p is not None and paired(p.elem_role(seqs, v.key, vat), p.elem_role(seqs, v.value, vat))
+        p = pos_iter(seqs, gens[0].target, gens[0].iter, vat)
+        return p is not None and paired(p.elem_role(seqs, key, vat), p.elem_role(seqs, val, vat))
     if isinstance(v, ast.Call) and isinstance(v.func, ast.Name) and v.func.id == "dict" and len(v.args) == 1 and not v.keywords \
-            and isinstance(v.args[0], ast.Call) and A.call_attr(v.args[0]) == "zip" and len(v.args[0].args) == 2:
+            and isinstance(v.args[0], ast.Call) and A.call_attr(v.args[0]) == "zip" and len(v.args[0].args) == 2 \
+            and all(k.arg == "strict" for k in v.args[0].keywords):
         z = v.args[0]
         return paired(seqs.role(z.args[0], vat), seqs.role(z.args[1], vat))
     if isinstance(v, ast.Dict) and not v.keys and isinstance(ret.value, ast.Name):
@@ -986,7 +2256,11 @@ def is_valid_flag(fa, e, at, _depth=0):
         ds = fa.df.reaching(at, e.id)
         if not ds:
             return False
+        real = 0
         for d in ds:
+            if d.kind == "assign" and isinstance(d.value, ast.Constant) and not d.value.value:
+                continue    # "not served" by default: a truthy value can only come from the other bindings
+            real += 1
             if d.kind == "assign" and d.value is not None:
                 if not is_valid_flag(fa, d.value, d.node, _depth + 1):
                     return False
@@ -997,7 +2271,7 @@ def is_valid_flag(fa, e, at, _depth=0):
                     return False
             else:
                 return False
-        return True
+        return real > 0
     return False
 
 
@@ -1039,6 +2313,9 @@ def _check_alignment(ck, R2, R4, ctx, br):
         lv = origins(br, e, at)
         return bool(lv) and all(x is pre for (x, _n) in lv)
     subs = [n for n in A.walk_local(loop_ast) if isinstance(n, ast.Subscript) and isinstance(n.ctx, ast.Load) and br.nodes(n) and is_bulk(n.value, br.nodes(n)[0])]
+    # ... or taken off an iterator over the bulk answer that is advanced in step with the loop
+    subs += [c for c in br.calls("next") if isinstance(c.func, ast.Name) and c.args and br.nodes(c) and br.inside(c, loop_ast)
+             and any(d.startswith("call:get_mementos") for d in br.deps(c.args[0], br.nodes(c)[0]))]
     ok4 = all(pit.elem_role(seqs, s, br.nodes(s)[0]) == "bulk" for s in subs) and (bool(subs) or "bulk" in pit.elems.values())
     ck.ob(R2, br.key(loop_ast, "indexing"), ok4, "existing mementos are read at the loop index" if ok4 else
           "existing mementos are not indexed with the loop index", br.where(loop_ast))
@@ -1054,12 +2331,12 @@ def _check_alignment(ck, R2, R4, ctx, br):
     valid_edges = edges_implying(br, lambda k, e, b, n: k == "truth" and b and is_valid_flag(br, e, n))
     ok10 = bool(runs) and bool(valid_edges)
     if ok10:
-        live = br.cfg.reach(body_starts(br, heads), removed=set(br.nodes_all(runs)), edge_ok=not_edges(valid_edges))
+        live = sense(br).reach(body_starts(br, heads), removed=set(br.nodes_all(runs)), edge_ok=not_edges(valid_edges))
         ok10 = not (set(heads) & live)
         ck.paths_enumerated += 1
     ck.ob(R4, br.key(loop_ast, "not-served-runs"), ok10, "a non-served element runs through memento_run_local (per-call mutex, re-check)" if ok10 else
           "an element without a valid served result can skip memento_run_local", br.where(loop_ast))
-    rl = FA(ck, RL + ".memento_run_local")
+    rl = nfa(ck, RL + ".memento_run_local")
     lk = [c for c in rl.calls("get_memento") if rl.nodes(c)]
     okl = bool(lk) and all(rl.unconditional(c) for c in lk) and all(rl.cfg.must_pass(rl.nodes_all(lk), i) for i in rl.nodes_all(rl.calls("_filter_call")))
     ck.ob(R4, rl.key(None, "recheck-unconditional"), okl, "memento_run_local looks the call up again, unconditionally, before running the body" if okl else
@@ -1072,29 +2349,77 @@ def _check_alignment(ck, R2, R4, ctx, br):
               "memento_run_local is not called with the current element", br.where(c))
 
 
-def _check_front_end(ck, R3):
-    cb = FA(ck, "base.MementoFunctionBase.call_batch")
-    run, seqs, arg, elts = call_batch_dispatch(cb)
+def _with_args_is_constructor(ck):
+    """FunctionReference.with_args(*args, _memento_context_args=c, **kwargs) is FunctionReferenceWithArguments(self, args, kwargs, c)."""
+    fi = ck.repo.try_func("reference.FunctionReference.with_args")
+    if fi is None or not fi.node.args.vararg or not fi.node.args.kwarg:
+        return False
+    rets = [r for r in ast.walk(fi.node) if isinstance(r, ast.Return)]
+    if len(rets) != 1 or not (isinstance(rets[0].value, ast.Call) and A.call_attr(rets[0].value) == "FunctionReferenceWithArguments"):
+        return False
+    c = rets[0].value
+    got = [A.arg_or_kw(c, i, nm) for i, nm in enumerate(("fn_reference", "args", "kwargs", "context_args"))]
+    want = [fi.params[0], fi.node.args.vararg.arg, fi.node.args.kwarg.arg, "_memento_context_args"]
+    return all(g is not None and A.norm(g) == w for g, w in zip(got, want))
 
-    def is_ref(x, n, p):
-        if not (isinstance(x, ast.Call) and A.call_attr(x) == "FunctionReferenceWithArguments"):
+
+def reference_parts(ck, fa, x, n):
+    """(fn_reference, args, kwargs, context_args) expressions of an expression that builds a FunctionReferenceWithArguments —
+    by its constructor or through FunctionReference.with_args — or None.  A missing part is None."""
+    x, n = bound_value(fa, x, n)
+    if not isinstance(x, ast.Call):
+        return None
+    if A.call_attr(x) == "FunctionReferenceWithArguments" and not any(isinstance(a, ast.Starred) for a in x.args) and not any(k.arg is None for k in x.keywords):
+        return tuple(A.arg_or_kw(x, i, nm) for i, nm in enumerate(("fn_reference", "args", "kwargs", "context_args"))) + (n,)
+    if A.call_attr(x) == "with_args" and isinstance(x.func, ast.Attribute) and _with_args_is_constructor(ck):
+        named = [k for k in x.keywords if k.arg is not None and k.arg != "_memento_context_args"]
+        spread = [k.value for k in x.keywords if k.arg is None]
+        star = [a.value for a in x.args if isinstance(a, ast.Starred)]
+        if named or len(spread) != 1 or len(star) > 1 or (star and len(x.args) != 1):
+            return None
+        args = star[0] if star else (ast.Tuple(elts=list(x.args), ctx=ast.Load()))
+        return (x.func.value, args, spread[0], A.kwarg(x, "_memento_context_args"), n)
+    return None
+
+
+def _check_front_end(ck, R3):
+    cb = nfa(ck, "base.MementoFunctionBase.call_batch")
+    run, seqs, arg, elts = call_batch_dispatch(cb)
+    built = [(reference_parts(ck, cb, x, n), p) for (x, n, p) in elts or []]
+
+    def is_ref(parts, p):
+        if parts is None:
             return False
-        kw = A.arg_or_kw(x, 2, "kwargs")
-        return kw is not None and p.elem_role(seqs, kw, n) == "input"
-    ok6 = bool(elts) and all(is_ref(x, n, p) for (x, n, p) in elts)
+        _f, args, kw, _c, n = parts
+        return kw is not None and p.elem_role(seqs, kw, n) == "input" and (args is None or (isinstance(args, ast.Tuple) and not args.elts))
+    ok6 = bool(built) and all(is_ref(parts, p) for (parts, p) in built)
     ck.ob(R3, cb.key(None, "refs-in-order"), ok6, "one reference per kwargs, in order" if ok6 else
           "call_batch does not build exactly one reference per kwargs in input order", cb.where())
+    # ... and builds it as the single call does: same function reference, same context arguments (what the argument
+    # hash — the key the result is stored under — is computed from besides the arguments themselves)
+    one = nfa(ck, "base.MementoFunctionBase.call")
+    single = [reference_parts(ck, one, c, one.nodes(c)[0]) for c in one.calls() if one.nodes(c) and A.call_attr(c) in ("FunctionReferenceWithArguments", "with_args")]
+    single = [x for x in single if x is not None]
+    if ok6 and single:
+        def text(fa_, e, n):
+            return fa_.xnorm(e, n) if e is not None else "<none>"
+        want = {(text(one, f_, n), text(one, c_, n)) for (f_, _a, _k, c_, n) in single}
+        got = {(text(cb, parts[0], parts[4]), text(cb, parts[3], parts[4])) for (parts, _p) in built}
+        oks = len(want) == 1 and got == want
+        ck.ob(R3, cb.key(None, "refs-as-single-call"), oks, "batch elements are referenced as the single call references them" if oks else
+              "call_batch builds its references differently from the single call (function reference / context arguments: %s vs %s): a batch "
+              "element is looked up and stored under another argument hash than the same call made individually" % (sorted(got), sorted(want)), cb.where())
     okb = bool(elts)
     ck.ob(R3, cb.key(run, "dispatch"), okb, "the whole list is dispatched as one batch" if okb else
           "call_batch does not dispatch the list it built", cb.where(run))
-    ok7 = _first_exception_ok(cb, run)
+    ok7 = _first_exception_ok(ck, cb, run)
     ck.ob(R3, cb.key(None, "first-exception"), ok7, "with raise_first_exception the first exception in input order is raised" if ok7 else
           "call_batch does not raise the first exception (in input order) iff raise_first_exception", cb.where())
     rv = [r for r in cb.returns() if cb.nodes(r)]
     ok8 = bool(rv) and all(r.value is not None and _is_run_result(cb, run, r.value, cb.nodes(r)[0]) for r in rv)
     ck.ob(R3, cb.key(None, "returns-batch-result"), ok8, "the batch result list is returned as is" if ok8 else
           "call_batch does not return the runner's result list unchanged", cb.where())
-    mr = FA(ck, "base.MementoFunctionBase.map_over_range")
+    mr = nfa(ck, "base.MementoFunctionBase.map_over_range")
     ret = mr.one([r for r in mr.returns() if mr.nodes(r)], "return")
     ok9 = ret.value is not None and _pairing_ok(mr, ret)
     ck.ob(R3, mr.key(None, "pairing"), ok9, "values and results are paired by the same index" if ok9 else
